@@ -23,7 +23,9 @@ EXPLANATION = (
     "table to be 'normalised quotient has numerator == denominator'; codec arity and integer layout of keys/attestations "
     "are checked on the flattened byte concatenations and slice offsets (as polynomials). Structural necessary conditions "
     "of the protocol clauses: the range verifier checks every Peng-Bao verification equation (as exponent vectors over the "
-    "commitments, on every accepting return path, decision helpers and generator helpers followed), a challenge response is "
+    "commitments, on every accepting return path; decision helpers, generator helpers, result objects - NamedTuple / dataclass / Enum / small "
+    "callable classes, written out as their constructor arguments - and functools / operator combinators are followed, and a guard "
+    "that every caller establishes before calling the verifier counts as required), a challenge response is "
     "consumed together with its pending-challenge entry and the challenge dropped from the backlog is the one selected by the "
     "answered hash (both also when the pop / removal / processing lives in a new helper or behind a dispatch table: the call "
     "is followed with parameters bound to the caller's expressions and the facts that dominate the call), an attestation is "
@@ -33,7 +35,10 @@ EXPLANATION = (
     "recorded and none failed (all aggregates with 0..3 responses), and every decoded answer 0..3 is counted once in its own "
     "bucket. Where the symbolic reading does not recognise how a codec / field method is written, the same interpreter decides "
     "the question on model values (round trips of keys, bit-pairs and integers of every size class; operators, inverse, "
-    "normalize, intpow, _modinv, equality against reference arithmetic in F_p[x]/(x^2+x+1)). Soundness/completeness of the "
+    "normalize, intpow, _modinv, equality against reference arithmetic in F_p[x]/(x^2+x+1)). wp_compress - the form in which field "
+    "elements go on the wire - is decided on model operands to return the same field element with denominator 1; boneh.decode is "
+    "checked to carry no state between keys (if it touches module-level mutable state it is interpreted after a call under another "
+    "key whose freed objects' addresses the new key received, and must answer as in a fresh interpreter). Soundness/completeness of the "
     "zero-knowledge proofs and the Boneh scheme rest on number theory over run-time keys and randomness and are NOT decided."
 )
 
@@ -180,6 +185,16 @@ def _const_test(test: ast.AST):
     if not (isinstance(test, ast.Compare) and len(test.ops) == 1):
         return None
 
+    both = (_enum_member_of(test.left), _enum_member_of(test.comparators[0]))
+    if both[0] is not None and both[1] is not None and both[0][0] is both[1][0] and isinstance(test.ops[0], (ast.Eq, ast.NotEq, ast.Is, ast.IsNot)):
+        same = both[0][1] == both[1][1]
+        return same if isinstance(test.ops[0], (ast.Eq, ast.Is)) else not same
+    if both[0] is not None and isinstance(test.ops[0], (ast.In, ast.NotIn)) and isinstance(test.comparators[0], (ast.Tuple, ast.List, ast.Set)):
+        others = [_enum_member_of(x) for x in test.comparators[0].elts]
+        if all(o is not None and o[0] is both[0][0] for o in others):
+            r = any(o[1] == both[0][1] for o in others)
+            return r if isinstance(test.ops[0], ast.In) else not r
+
     def val(e):
         c = _int_const(e)
         if c is not None:
@@ -213,6 +228,34 @@ def _const_test(test: ast.AST):
         return None if fn is None else bool(fn(le[1], ri[1]))
     except TypeError:
         return None
+
+
+def _enum_member_of(e: ast.AST):
+    """(class, canonical member name) when e is `Cls.MEMBER` of an Enum class of the repository whose members have distinct constant values"""
+    if _CTX is None or not (isinstance(e, ast.Attribute) and isinstance(e.value, (ast.Name, ast.Attribute))):
+        return None
+    cname = e.value.id if isinstance(e.value, ast.Name) else e.value.attr
+    cands = _CTX.repo.classes.get(cname, [])
+    if len(cands) != 1 or _record_kind(cands[0]) != "enum" or e.attr not in cands[0].attrs:
+        return None
+    ci = cands[0]
+    members = [k for k in ci.attrs if not k.startswith("_")]
+
+    def value(k):
+        x = ci.attrs[k]
+        if isinstance(x, ast.Call) and (chain(x.func) or "").rsplit(".", 1)[-1] == "auto" and not x.args:
+            return ("auto", members.index(k))
+        try:
+            return ("lit", repr(ast.literal_eval(x)))
+        except (ValueError, TypeError, SyntaxError, MemoryError, RecursionError):
+            return None
+    vals = {k: value(k) for k in members}
+    if vals[e.attr] is None:
+        return None
+    if any(v is None for v in vals.values()):
+        return None                                           # a member with a computed value could be an alias of this one
+    first = next(k for k in members if vals[k] == vals[e.attr])   # members with equal values are one member (alias)
+    return ci, first
 
 
 def _decide(test: ast.AST, known: dict):
@@ -319,27 +362,62 @@ class _Exec:
         return self.done
 
     # ---- calls to NEW helpers are executed too (parameters bound to the argument expressions)
-    def _helper_target(self, call: ast.Call):
+    def _helper_target(self, call):  # noqa: C901, PLR0911, PLR0912
+        """(helper, parameter bindings, class of its receiver) for a call - or a property read - that reaches a NEW function; None otherwise"""
         if _CTX is None or getattr(call, "_c18_nofollow", False) or self.depth >= 4:
             return None
-        repo, f = _CTX.repo, call.func
-        t = recv_expr = None
+        repo = _CTX.repo
+        t = recv_expr = recv_cls = None
+        if isinstance(call, ast.Attribute):
+            # a property of a NEW class read on self / on a record value written as its constructor call
+            if not isinstance(call.ctx, ast.Load):
+                return None
+            if isinstance(call.value, ast.Name) and call.value.id == "self" and self.recv is not None:
+                t, recv_expr, recv_cls = self.recv.lookup(call.attr), call.value, self.recv
+            elif isinstance(call.value, ast.Call):
+                rec = _record_ctor(call.value)
+                if rec is not None:
+                    t, recv_expr, recv_cls = rec[0].lookup(call.attr), call.value, rec[0]
+            if t is None or "property" not in t.decorator_names() or not _is_new(t) or t.node is self.fi.node or len(t.params()) != 1:
+                return None
+            env = {} if isinstance(recv_expr, ast.Name) and recv_expr.id == t.params()[0] else {t.params()[0]: recv_expr}
+            return t, env, recv_cls
+        f = call.func
         try:
             if isinstance(f, ast.Name):
                 r = repo.resolve_name(self.fi.module, f.id)
                 t = r if isinstance(r, FuncInfo) else None
             elif isinstance(f, ast.Attribute):
                 if isinstance(f.value, ast.Name) and f.value.id in ("self", "cls") and self.recv is not None:
-                    t, recv_expr = self.recv.lookup(f.attr), f.value
+                    t, recv_expr, recv_cls = self.recv.lookup(f.attr), f.value, self.recv
                 elif isinstance(f.value, ast.Name) and f.value.id in ("other",) and self.recv is not None:
-                    t, recv_expr = self.recv.lookup(f.attr), f.value
+                    t, recv_expr, recv_cls = self.recv.lookup(f.attr), f.value, self.recv
+                elif isinstance(f.value, ast.Call) and _record_ctor(f.value) is not None:
+                    recv_cls = _record_ctor(f.value)[0]          # a method of a record value (decision object) written as its constructor call
+                    t, recv_expr = recv_cls.lookup(f.attr), f.value
                 else:
                     c = repo.resolve_class_expr(self.fi.module, f.value)
                     if c is not None:
-                        t = c.lookup(f.attr)
+                        t, recv_cls = c.lookup(f.attr), c
+                    else:
+                        # a NEW method of another object (self.commitment.binds(...)): by the attribute's type, else by its unique name among the new methods
+                        owner = self.recv if self.recv is not None else self.fi.cls
+                        c = repo.attr_type(owner, f.value.attr) if owner is not None and isinstance(f.value, ast.Attribute) and isinstance(f.value.value, ast.Name) \
+                            and f.value.value.id == "self" else None
+                        cand = c.lookup(f.attr) if c is not None else None
+                        if cand is None and not f.attr.startswith("__"):
+                            named = [g for g in repo.all_functions() if g.name == f.attr and g.cls is not None and _is_new(g)
+                                     and not ({"staticmethod", "classmethod", "property"} & set(g.decorator_names()))]
+                            if len(named) == 1 and not any(g.name == f.attr and g.cls is not None and g is not named[0] for g in repo.all_functions()):
+                                cand, c = named[0], named[0].cls
+                        if cand is not None and "staticmethod" not in cand.decorator_names() and "classmethod" not in cand.decorator_names():
+                            t, recv_expr, recv_cls = cand, f.value, c
+            elif isinstance(f, ast.Call) and _record_ctor(f) is not None:
+                recv_cls = _record_ctor(f)[0]                    # a small callable class: Checker(g, h)(x) runs Checker.__call__
+                t, recv_expr = recv_cls.lookup("__call__"), f
         except Exception:  # noqa: BLE001
             t = None
-        if t is None or not _is_new(t) or t.node is self.fi.node:
+        if t is None or not _is_new(t) or t.node is self.fi.node or "property" in t.decorator_names():
             return None
         a = t.node.args
         if a.vararg or a.kwarg or any(isinstance(x, ast.Starred) for x in call.args) or any(k.arg is None for k in call.keywords):
@@ -368,7 +446,7 @@ class _Exec:
                 if nme not in defaults:
                     return None
                 env[nme] = defaults[nme]
-        return t, env
+        return t, env, recv_cls
 
     def _first_helper_call(self, e: ast.AST):
         stack = [e]
@@ -376,10 +454,10 @@ class _Exec:
             n = stack.pop(0)
             if isinstance(n, ast.Lambda):
                 continue
-            if isinstance(n, ast.Call):
+            if isinstance(n, (ast.Call, ast.Attribute)):
                 got = self._helper_target(n)
                 if got is not None:
-                    return n, got[0], got[1]
+                    return n, got[0], got[1], got[2]
             stack.extend(ast.iter_child_nodes(n))
         return None
 
@@ -397,9 +475,9 @@ class _Exec:
     def _expand(self, e: ast.AST, st: _St):
         hc = self._first_helper_call(e) if _CTX is not None else None
         if hc is not None:
-            call, target, env = hc
+            call, target, env, recv_cls = hc
             try:
-                sub = _Exec(target, None, self.recv if target.cls is not None else None, env, self.depth + 1).run()
+                sub = _Exec(target, None, (recv_cls or self.recv) if target.cls is not None else None, env, self.depth + 1).run()
             except AnalysisError:
                 sub = None
             if sub is not None and 0 < len(sub) <= 8:
@@ -412,8 +490,8 @@ class _Exec:
             call._c18_nofollow = True
         ife = _first_ifexp(e)
         if ife is None:
-            return [(e, st)]
-        v = _decide(ife.test, _known(st.conds))
+            return [(_simp(e), st)]
+        v = _decide(_simp(ife.test), _known(st.conds))
         out = []
         for pol in ((v,) if v is not None else (True, False)):
             st2 = st if v is not None else st.fork((ife.test, pol))
@@ -542,7 +620,68 @@ class _Exec:
             for n in _written_names([s]):
                 st.havoc(n)
             return [st]
+        if isinstance(s, ast.Match):
+            tmp = f"__match_{s.lineno}_{s.col_offset}__"
+            out = []
+            for st2 in self._stmt(ast.Assign(targets=[ast.Name(id=tmp, ctx=ast.Store())], value=s.subject, lineno=s.lineno, col_offset=0), st):
+                out.extend(self._block(self._match_as_ifs(s, st2, tmp), st2))      # the subject (helpers followed) is known per path
+            return out
         raise AnalysisError(f"undecided: {self.fi.qualname}: statement `{norm(s)[:60]}` is outside the symbolic executor")
+
+    def _match_as_ifs(self, s: ast.Match, st: _St, tmp: str) -> list[ast.stmt]:
+        """
+        `match subject: case P1: B1 ...` as `m = subject` followed by an if / elif chain: each pattern becomes the test it performs on
+        the subject (value: ==, singleton: is, or-pattern: or, sequence pattern on a subject whose elements are written out: one
+        test per element, class pattern with keyword sub-patterns on attributes) and the assignments of the names it captures.
+        """
+        subj = ast.Name(id=tmp, ctx=ast.Load())
+        known = _literal_elements(_simp(st.env[tmp])) if tmp in st.env else None
+
+        def conj(parts):
+            parts = [p for p in parts if not (isinstance(p, ast.Constant) and p.value is True)]
+            return ast.Constant(value=True) if not parts else parts[0] if len(parts) == 1 else ast.BoolOp(op=ast.And(), values=parts)
+
+        def read(pat, val, binds, seq_known):  # noqa: PLR0911
+            if isinstance(pat, ast.MatchValue):
+                return ast.Compare(left=val, ops=[ast.Eq()], comparators=[pat.value])
+            if isinstance(pat, ast.MatchSingleton):
+                return ast.Compare(left=val, ops=[ast.Is()], comparators=[ast.Constant(value=pat.value)])
+            if isinstance(pat, ast.MatchAs):
+                t = read(pat.pattern, val, binds, seq_known) if pat.pattern is not None else ast.Constant(value=True)
+                if pat.name is not None:
+                    binds.append((pat.name, val))
+                return t
+            if isinstance(pat, ast.MatchOr):
+                inner: list = []
+                tests = [read(x, val, inner, seq_known) for x in pat.patterns]
+                if inner:
+                    raise AnalysisError(f"undecided: {self.fi.qualname}: or-pattern that binds names")
+                return ast.BoolOp(op=ast.Or(), values=tests)
+            if isinstance(pat, ast.MatchSequence) and seq_known is not None and not any(isinstance(x, ast.MatchStar) for x in pat.patterns):
+                if len(seq_known) != len(pat.patterns):
+                    return ast.Constant(value=False)
+                return conj([read(x, ast.Subscript(value=val, slice=ast.Constant(value=i), ctx=ast.Load()), binds, _literal_elements(seq_known[i]))
+                             for i, x in enumerate(pat.patterns)])
+            if isinstance(pat, ast.MatchClass) and not pat.patterns:
+                parts = [ast.Call(func=ast.Name(id="isinstance", ctx=ast.Load()), args=[val, pat.cls], keywords=[])]
+                parts += [read(x, ast.Attribute(value=val, attr=a, ctx=ast.Load()), binds, None) for a, x in zip(pat.kwd_attrs, pat.kwd_patterns)]
+                return conj(parts)
+            raise AnalysisError(f"undecided: {self.fi.qualname}: pattern `{type(pat).__name__}` in `{head(s)[:40]}` is outside the symbolic executor")
+
+        chain_: list[ast.stmt] = []
+        tail = chain_
+        for case in s.cases:
+            binds: list = []
+            test = read(case.pattern, subj, binds, known)
+            body = [ast.Assign(targets=[ast.Name(id=n, ctx=ast.Store())], value=v, lineno=s.lineno, col_offset=0) for n, v in binds] + list(case.body)
+            if case.guard is not None:
+                if binds:
+                    raise AnalysisError(f"undecided: {self.fi.qualname}: guarded case that binds names in `{head(s)[:40]}`")
+                test = conj([test, case.guard])
+            node = ast.If(test=test, body=body, orelse=[], lineno=s.lineno, col_offset=0)
+            tail.append(node)
+            tail = node.orelse
+        return chain_
 
 
 def _paths(fi: FuncInfo, loop_hook=None):
@@ -559,10 +698,33 @@ def _simp(n):
     for f in n._fields:
         if hasattr(n, f):
             setattr(new, f, _simp(getattr(n, f)))
+    if getattr(n, "_c18_nofollow", False):
+        new._c18_nofollow = True
     if isinstance(new, ast.Subscript) and isinstance(new.slice, ast.Constant) and isinstance(new.slice.value, int) and not isinstance(new.slice.value, bool):
         elts = _literal_elements(new.value)
         if elts is not None and -len(elts) <= new.slice.value < len(elts):
             return elts[new.slice.value]
+    if isinstance(new, ast.Attribute) and isinstance(new.value, ast.Call):
+        rec = _record_ctor(new.value)                        # Record(x, y).field is the argument bound to that field
+        if rec is not None and "__post_init__" not in rec[0].methods:
+            for (_, attr, _), v in zip(rec[1], rec[2]):
+                if attr == new.attr:
+                    return v
+    if isinstance(new, ast.Call) and isinstance(new.func, ast.Name) and new.func.id == "len" and len(new.args) == 1 and not new.keywords \
+            and isinstance(new.args[0], (ast.Tuple, ast.List)):
+        elts = _literal_elements(new.args[0])
+        if elts is not None:
+            return ast.Constant(value=len(elts))
+    if isinstance(new, ast.Call) and isinstance(new.func, ast.Name) and new.func.id == "isinstance" and len(new.args) == 2 and not new.keywords:
+        rec = _record_ctor(new.args[0]) if isinstance(new.args[0], ast.Call) else None
+        if rec is not None and isinstance(new.args[1], (ast.Name, ast.Attribute)):
+            cname = new.args[1].id if isinstance(new.args[1], ast.Name) else new.args[1].attr
+            if any(k.name == cname for k in rec[0].mro()):
+                return ast.Constant(value=True)
+    if isinstance(new, ast.Call):
+        folded = _fold_lib_call(new)
+        if folded is not None:
+            return folded
     if isinstance(new, ast.Call) and isinstance(new.func, ast.Lambda) and not new.keywords and not any(isinstance(a, ast.Starred) for a in new.args):
         la = new.func.args                                   # (lambda x: E)(v) is E[x := v]
         names = [x.arg for x in la.posonlyargs + la.args]
@@ -577,6 +739,151 @@ def _simp(n):
             v = le + ri if isinstance(new.op, ast.Add) else le - ri if isinstance(new.op, ast.Sub) else le * ri
             return ast.Constant(value=v)
     return new
+
+
+_LIB_ROOTS = {"itertools", "functools", "operator", "dataclasses", "collections"}
+_OP_BIN = {"and_": ast.BitAnd, "or_": ast.BitOr, "xor": ast.BitXor, "mul": ast.Mult, "add": ast.Add, "sub": ast.Sub, "floordiv": ast.FloorDiv, "mod": ast.Mod,
+           "lshift": ast.LShift, "rshift": ast.RShift, "truediv": ast.Div, "pow": ast.Pow, "matmul": ast.MatMult}
+_OP_CMP = {"eq": ast.Eq, "ne": ast.NotEq, "lt": ast.Lt, "le": ast.LtE, "gt": ast.Gt, "ge": ast.GtE, "is_": ast.Is, "is_not": ast.IsNot}
+_RECORD_CACHE: dict = {}
+
+
+def _libfn(f: ast.AST) -> str | None:
+    """bare name of the standard-library function a callee expression names: `reduce`, `functools.reduce`, `chain.from_iterable`"""
+    if isinstance(f, ast.Name):
+        return f.id
+    if isinstance(f, ast.Attribute) and isinstance(f.value, ast.Name) and f.value.id in _LIB_ROOTS:
+        return f.attr
+    if isinstance(f, ast.Attribute) and f.attr == "from_iterable" and _libfn(f.value) == "chain":
+        return "chain.from_iterable"
+    return None
+
+
+def _record_ctor(e: ast.AST):
+    """(class, fields, [argument expression per field]) for a constructor call of a record class of the repository (NamedTuple / dataclass /
+    a class whose __init__ only stores its parameters); None otherwise"""
+    if _CTX is None or not isinstance(e, ast.Call):
+        return None
+    f = e.func
+    name = f.id if isinstance(f, ast.Name) else f.attr if isinstance(f, ast.Attribute) and isinstance(f.value, ast.Name) and f.value.id not in ("self", "cls") else None
+    if name is None or any(isinstance(a, ast.Starred) for a in e.args) or any(k.arg is None for k in e.keywords):
+        return None
+    key = (id(_CTX.repo), name)
+    if key not in _RECORD_CACHE:
+        cands = _CTX.repo.classes.get(name, [])
+        fields = _record_fields(cands[0]) if len(cands) == 1 else None
+        _RECORD_CACHE[key] = (cands[0], fields) if fields is not None else None
+    got = _RECORD_CACHE[key]
+    if got is None:
+        return None
+    ci, fields = got
+    how = _bind_record(fields, len(e.args), [k.arg for k in e.keywords])
+    if how is None:
+        return None
+    kws = {k.arg: k.value for k in e.keywords}
+    vals = [e.args[h[1]] if h[0] == "pos" else kws[h[1]] if h[0] == "kw" else fld[2] for h, fld in zip(how, fields)]
+    return ci, fields, vals
+
+
+def _fold_lib_call(c: ast.Call):  # noqa: C901, PLR0911, PLR0912
+    """
+    Calls of functools / operator combinators written out as the expression they compute (all are pure):
+    partial(f, a)(b) -> f(a, b); methodcaller("m", a)(o) -> o.m(a); attrgetter("x")(o) -> o.x; itemgetter(i)(s) -> s[i];
+    and_(a, b) -> a & b (every operator.* function); reduce(f, (a, b), i) -> f(f(i, a), b).  None when the call is not one of these.
+    """
+    f = c.func
+    plain = not any(isinstance(a, ast.Starred) for a in c.args) and not any(k.arg is None for k in c.keywords)
+    if isinstance(f, ast.Call) and plain and not any(isinstance(a, ast.Starred) for a in f.args) and not any(k.arg is None for k in f.keywords):
+        inner = _libfn(f.func)
+        if inner == "partial" and f.args:
+            return _simp(ast.Call(func=f.args[0], args=list(f.args[1:]) + list(c.args), keywords=list(f.keywords) + list(c.keywords)))
+        if inner == "methodcaller" and f.args and isinstance(f.args[0], ast.Constant) and isinstance(f.args[0].value, str) and len(c.args) == 1 and not c.keywords:
+            return _simp(ast.Call(func=ast.Attribute(value=c.args[0], attr=f.args[0].value, ctx=ast.Load()), args=list(f.args[1:]), keywords=list(f.keywords)))
+        if inner == "attrgetter" and len(f.args) == 1 and not f.keywords and isinstance(f.args[0], ast.Constant) and isinstance(f.args[0].value, str) \
+                and len(c.args) == 1 and not c.keywords and all(p.isidentifier() for p in f.args[0].value.split(".")):
+            out = c.args[0]
+            for part in f.args[0].value.split("."):
+                out = ast.Attribute(value=out, attr=part, ctx=ast.Load())
+            return _simp(out)
+        if inner == "itemgetter" and len(f.args) == 1 and not f.keywords and len(c.args) == 1 and not c.keywords:
+            return _simp(ast.Subscript(value=c.args[0], slice=f.args[0], ctx=ast.Load()))
+        return None
+    name = _libfn(f)
+    if name is None or not plain or c.keywords:
+        return None
+    if name in _OP_BIN and len(c.args) == 2:
+        return ast.BinOp(left=c.args[0], op=_OP_BIN[name](), right=c.args[1])
+    if name in _OP_CMP and len(c.args) == 2:
+        return ast.Compare(left=c.args[0], ops=[_OP_CMP[name]()], comparators=[c.args[1]])
+    if name == "not_" and len(c.args) == 1:
+        return ast.UnaryOp(op=ast.Not(), operand=c.args[0])
+    if name == "neg" and len(c.args) == 1:
+        return ast.UnaryOp(op=ast.USub(), operand=c.args[0])
+    if name == "contains" and len(c.args) == 2:
+        return ast.Compare(left=c.args[1], ops=[ast.In()], comparators=[c.args[0]])
+    if name == "getitem" and len(c.args) == 2:
+        return _simp(ast.Subscript(value=c.args[0], slice=c.args[1], ctx=ast.Load()))
+    if name == "reduce" and len(c.args) in (2, 3):
+        items = _literal_elements(c.args[1])
+        if items is None or len(items) > 64 or (not items and len(c.args) == 2):
+            return None
+        acc = c.args[2] if len(c.args) == 3 else items.pop(0)
+        for x in items:
+            acc = _simp(ast.Call(func=c.args[0], args=[acc, x], keywords=[]))
+        return acc
+    return None
+
+
+def _bind_target(t: ast.AST, x: ast.AST) -> dict | None:
+    """names of a loop / comprehension target bound to the element expression x"""
+    if isinstance(t, ast.Name):
+        return {t.id: x}
+    if isinstance(t, (ast.Tuple, ast.List)) and not any(isinstance(e, ast.Starred) for e in t.elts):
+        parts = _literal_elements(x)
+        if parts is None or len(parts) != len(t.elts):
+            return None
+        out: dict = {}
+        for e, v in zip(t.elts, parts):
+            b = _bind_target(e, v)
+            if b is None:
+                return None
+            out.update(b)
+        return out
+    return None
+
+
+def _comp_elements(e) -> list | None:
+    """elements of a list comprehension / generator expression whose generators all range over literal sequences and whose filters are decidable"""
+    def go(gens, env):
+        if not gens:
+            return [_simp(_subst(e.elt, env))]
+        g = gens[0]
+        if g.is_async:
+            return None
+        src = _literal_elements(_simp(_subst(g.iter, env)) if env else g.iter)
+        if src is None or len(src) > 64:
+            return None
+        out = []
+        for x in src:
+            b = _bind_target(g.target, x)
+            if b is None:
+                return None
+            env2 = {**env, **b}
+            keep = True
+            for cnd in g.ifs:
+                v = _decide(_simp(_subst(cnd, env2)), {})
+                if v is None:
+                    return None
+                if not v:
+                    keep = False
+                    break
+            if keep:
+                sub = go(gens[1:], env2)
+                if sub is None or len(out) + len(sub) > 256:
+                    return None
+                out.extend(sub)
+        return out
+    return go(list(e.generators), {})
 
 
 def _dict_items(e: ast.AST):
@@ -635,38 +942,87 @@ def _literal_elements(e: ast.AST):
     """Elements of a list/tuple literal, or of a comprehension (one generator, no filter) over such a literal; None otherwise."""
     if isinstance(e, (ast.List, ast.Tuple)) and not any(isinstance(x, ast.Starred) for x in e.elts):
         return list(e.elts)
-    if isinstance(e, (ast.ListComp, ast.GeneratorExp)) and len(e.generators) == 1:
-        g = e.generators[0]
-        src = _literal_elements(g.iter)
-        if src is not None and not g.ifs and not g.is_async and isinstance(g.target, ast.Name):
-            return [_simp(_subst(e.elt, {g.target.id: x})) for x in src]
-        if src is not None and not g.ifs and not g.is_async and isinstance(g.target, (ast.Tuple, ast.List)) \
-                and all(isinstance(t, ast.Name) for t in g.target.elts):
-            out = []
-            for x in src:                                        # for i, j in ((0, 1), (2, 3), (4, 5))
-                if not (isinstance(x, (ast.Tuple, ast.List)) and len(x.elts) == len(g.target.elts)):
-                    return None
-                out.append(_simp(_subst(e.elt, {t.id: v for t, v in zip(g.target.elts, x.elts)})))
-            return out
-    if isinstance(e, ast.Call) and isinstance(e.func, ast.Name) and e.func.id in ("list", "tuple") and len(e.args) == 1 and not e.keywords:
+    if isinstance(e, (ast.ListComp, ast.GeneratorExp)):
+        return _comp_elements(e)                                 # every generator over a literal sequence; filters decided on the elements
+    if isinstance(e, ast.Call) and isinstance(e.func, ast.Name) and e.func.id in ("list", "tuple", "iter") and len(e.args) == 1 and not e.keywords:
         return _literal_elements(e.args[0])
+    if isinstance(e, ast.Call):
+        rec = _record_ctor(e)
+        if rec is not None and _record_kind(rec[0]) == "namedtuple":
+            return list(rec[2])                                  # a NamedTuple value is the tuple of its fields
+    if isinstance(e, ast.Call) and not e.keywords:
+        lib = _libfn(e.func)
+        if lib == "astuple" and len(e.args) == 1:
+            rec = _record_ctor(e.args[0])
+            if rec is not None and "__post_init__" not in rec[0].methods:
+                return list(rec[2])
+        if lib == "chain" and not any(isinstance(a, ast.Starred) for a in e.args):
+            cols = [_literal_elements(a) for a in e.args]
+            if all(c is not None for c in cols):
+                return [x for c in cols for x in c]
+        if lib == "chain.from_iterable" and len(e.args) == 1:
+            outer = _literal_elements(e.args[0])
+            cols = [_literal_elements(a) for a in outer] if outer is not None else [None]
+            if all(c is not None for c in cols):
+                return [x for c in cols for x in c]
+        if lib == "reversed" and len(e.args) == 1:
+            col = _literal_elements(e.args[0])
+            if col is not None:
+                return col[::-1]
+        if lib == "islice" and len(e.args) in (2, 3, 4):
+            col = _literal_elements(e.args[0])
+            bounds = [None if (isinstance(a, ast.Constant) and a.value is None) else _int_const(_simp(a)) for a in e.args[1:]]
+            if col is not None and all(b is not None or (isinstance(a, ast.Constant) and a.value is None) for a, b in zip(e.args[1:], bounds)) \
+                    and all(b is None or b >= 0 for b in bounds) and (len(bounds) < 3 or bounds[2] != 0):
+                return col[slice(*bounds)]
+        if lib == "repeat" and len(e.args) == 2 and _int_const(_simp(e.args[1])) is not None and 0 <= _int_const(_simp(e.args[1])) <= 64:
+            return [e.args[0]] * _int_const(_simp(e.args[1]))
+        if lib == "starmap" and len(e.args) == 2:
+            rows = _literal_elements(e.args[1])
+            cols = [_literal_elements(r) for r in rows] if rows is not None else [None]
+            if all(c is not None for c in cols):
+                return [_simp(ast.Call(func=e.args[0], args=list(c), keywords=[])) for c in cols]
+        if isinstance(e.func, ast.Attribute) and e.func.attr in ("values", "keys", "items") and not e.args and isinstance(e.func.value, (ast.Dict, ast.Call, ast.DictComp)):
+            items = _dict_items(e.func.value)
+            if items is not None and len({k for k, _ in items}) == len(items):
+                if e.func.attr == "values":
+                    return [v for _, v in items]
+                if e.func.attr == "keys":
+                    return [ast.Constant(value=k) for k, _ in items]
+                return [ast.Tuple(elts=[ast.Constant(value=k), v], ctx=ast.Load()) for k, v in items]
+    if isinstance(e, ast.BinOp) and isinstance(e.op, ast.Mult):
+        for seq, cnt in ((e.left, e.right), (e.right, e.left)):
+            k = _int_const(_simp(cnt))
+            if isinstance(seq, (ast.List, ast.Tuple)) and k is not None and 0 <= k <= 64:
+                col = _literal_elements(seq)                     # (True,) * 10
+                if col is not None:
+                    return col * k
+    if isinstance(e, ast.Subscript) and isinstance(e.slice, ast.Slice):
+        col = _literal_elements(e.value)
+        bounds = [None if b is None else _int_const(_simp(b)) for b in (e.slice.lower, e.slice.upper, e.slice.step)]
+        if col is not None and all(b is not None or x is None for b, x in zip(bounds, (e.slice.lower, e.slice.upper, e.slice.step))) and bounds[2] != 0:
+            return col[slice(*bounds)]
     if isinstance(e, ast.BinOp) and isinstance(e.op, ast.Add):
         le, ri = _literal_elements(e.left), _literal_elements(e.right)        # (a, b) + (c, d)
         if le is not None and ri is not None:
             return le + ri
-    if isinstance(e, ast.Call) and isinstance(e.func, ast.Name) and e.func.id == "map" and len(e.args) == 2 and not e.keywords \
-            and isinstance(e.args[0], (ast.Name, ast.Attribute)):
-        src = _literal_elements(e.args[1])                                    # map(f, (x, y)) -> f(x), f(y)
-        if src is not None:
-            return [ast.Call(func=e.args[0], args=[x], keywords=[]) for x in src]
+    if isinstance(e, ast.Call) and isinstance(e.func, ast.Name) and e.func.id == "map" and len(e.args) >= 2 and not e.keywords \
+            and not any(isinstance(a, ast.Starred) for a in e.args):
+        cols = [_literal_elements(a) for a in e.args[1:]]                     # map(f, (x, y)) -> f(x), f(y)
+        if all(c is not None for c in cols):
+            if isinstance(e.args[0], (ast.Name, ast.Attribute)) and len(cols) == 1 and not (isinstance(e.args[0], ast.Name) and e.args[0].id == "bool"):
+                return [ast.Call(func=e.args[0], args=[x], keywords=[]) for x in cols[0]]
+            return [_simp(ast.Call(func=e.args[0], args=list(row), keywords=[])) for row in zip(*cols)]
     if isinstance(e, ast.Call) and isinstance(e.func, ast.Name) and e.func.id == "zip" and e.args and not e.keywords:
         cols = [_literal_elements(a) for a in e.args]
         if all(c is not None for c in cols):
             return [ast.Tuple(elts=list(row), ctx=ast.Load()) for row in zip(*cols)]
-    if isinstance(e, ast.Call) and isinstance(e.func, ast.Name) and e.func.id == "enumerate" and len(e.args) == 1 and not e.keywords:
+    if isinstance(e, ast.Call) and isinstance(e.func, ast.Name) and e.func.id == "enumerate" and len(e.args) in (1, 2) and \
+            all(k.arg == "start" for k in e.keywords) and len(e.args) + len(e.keywords) <= 2:
         col = _literal_elements(e.args[0])
-        if col is not None:
-            return [ast.Tuple(elts=[ast.Constant(value=i), x], ctx=ast.Load()) for i, x in enumerate(col)]
+        first = e.args[1] if len(e.args) == 2 else e.keywords[0].value if e.keywords else ast.Constant(value=0)
+        if col is not None and _int_const(_simp(first)) is not None:
+            return [ast.Tuple(elts=[ast.Constant(value=i), x], ctx=ast.Load()) for i, x in enumerate(col, _int_const(_simp(first)))]
     if isinstance(e, ast.Call) and isinstance(e.func, ast.Name) and e.func.id == "range" and 1 <= len(e.args) <= 3 and not e.keywords:
         bounds = [_int_const(_simp(a)) for a in e.args]
         if all(b is not None for b in bounds) and (len(bounds) < 3 or bounds[2] != 0):
@@ -686,9 +1042,45 @@ def _and_parts(e: ast.AST) -> list[ast.AST]:
         elts = _literal_elements(e.args[0])
         if elts is not None:
             return [p for v in elts for p in _and_parts(v)]
+    if isinstance(e, ast.Call) and isinstance(e.func, ast.Name) and e.func.id == "bool" and len(e.args) == 1 and not e.keywords:
+        return _and_parts(e.args[0])
+    if isinstance(e, ast.UnaryOp) and isinstance(e.op, ast.Not):
+        o = e.operand
+        if isinstance(o, ast.Call) and isinstance(o.func, ast.Name) and o.func.id == "any" and len(o.args) == 1 and not o.keywords:
+            elts = _literal_elements(o.args[0])                     # not any([not a, not b]) is a and b
+            if elts is not None:
+                return [p for v in elts for p in _and_parts(_negated(v))]
+        if isinstance(o, ast.BoolOp) and isinstance(o.op, ast.Or):
+            return [p for v in o.values for p in _and_parts(_negated(v))]
+        if isinstance(o, ast.UnaryOp) and isinstance(o.op, ast.Not):
+            return _and_parts(o.operand)
+    if isinstance(e, ast.Compare) and len(e.ops) == 1 and isinstance(e.ops[0], ast.Eq):
+        le, ri = _literal_elements(e.left), _literal_elements(e.comparators[0])
+        if le is not None and ri is not None and len(le) == len(ri) and le and isinstance(e.left, (ast.Tuple, ast.List, ast.Call)) \
+                and isinstance(e.comparators[0], (ast.Tuple, ast.List, ast.Call, ast.BinOp)):
+            out = []                                              # (a, b) == (True, True) / (x, y) == (u, v): element by element
+            for x, y in zip(le, ri):
+                if isinstance(y, ast.Constant) and y.value is True:
+                    out.extend(_and_parts(x))
+                elif isinstance(x, ast.Constant) and x.value is True:
+                    out.extend(_and_parts(y))
+                else:
+                    out.append(ast.Compare(left=x, ops=[ast.Eq()], comparators=[y]))
+            return out
     if isinstance(e, ast.Constant) and e.value is True:
         return []
     return [e]
+
+
+def _negated(e: ast.AST) -> ast.AST:
+    """the negation of a condition, written without a leading `not` where the operator can be flipped"""
+    if isinstance(e, ast.UnaryOp) and isinstance(e.op, ast.Not):
+        return e.operand
+    flip = {ast.Eq: ast.NotEq, ast.NotEq: ast.Eq, ast.Lt: ast.GtE, ast.GtE: ast.Lt, ast.Gt: ast.LtE, ast.LtE: ast.Gt, ast.Is: ast.IsNot, ast.IsNot: ast.Is,
+            ast.In: ast.NotIn, ast.NotIn: ast.In}
+    if isinstance(e, ast.Compare) and len(e.ops) == 1:
+        return ast.Compare(left=e.left, ops=[flip[type(e.ops[0])]()], comparators=list(e.comparators))
+    return ast.UnaryOp(op=ast.Not(), operand=e)
 
 
 def _sign_of(conds, is_target):
@@ -984,6 +1376,27 @@ def rule_ring_laws(ctx: Ctx) -> None:
             raise
         _check_eq_model(ctx, cls, str(e))
     _check_init(ctx, cls)
+    _check_wp_compress(ctx, cls, fm)
+
+
+def _check_wp_compress(ctx: Ctx, cls, fm: "_FieldModel") -> None:
+    """
+    wp_compress is how a field element is put on the wire (only its a and b coefficients are serialised): the value it returns
+    must be the SAME field element, with denominator 1.  Decided on model operands - numerators with and without an x term over
+    denominators that are 1, a scalar k != 1, k + jx and jx alone - by interpreting the method (and what it calls) and comparing,
+    by cross-multiplication in F_p[x]/(x^2+x+1), with the operand itself.
+    """
+    wc = cls.methods.get("wp_compress")
+    if wc is None:
+        raise AnalysisError("anchor-lost: FP2Value.wp_compress")
+    try:
+        bad = fm.wp_compress()
+    except _NoModel as e:
+        raise AnalysisError(f"undecided: {wc.qualname}: model evaluation stopped at {e}") from None
+    ctx.oblige(not bad)
+    ctx.check(not bad, "ring-laws", wc, wc.node, "wp_compress returns the same field element with denominator 1 (model operands)",
+              f"FP2Value.wp_compress does not return the value it was given: {bad}. Only the a and b coefficients of the compressed form are serialised, so "
+              "commitments / keys whose denominator the shortcut mishandles do not survive serialisation and the honest proof is rejected")
 
 
 def _is_modinv(e: ast.AST) -> bool:
@@ -1218,6 +1631,26 @@ class _FieldModel:
                     want = tuple(x % p for x in v)
                 if got != want:
                     return f"modulo {p}, normalize of {v} gives {got} instead of {want}"
+        return ""
+
+    def wp_compress(self) -> str:
+        """wp_compress(v) is v itself (the same field element) written with the trivial denominator 1, for every v = (a + bx)/(aC + bCx) with an invertible denominator"""
+        m = _Model(self.repo, budget=3000000)
+        fi = self.cls.methods["wp_compress"]
+        reps = [v for v in self.REPS if v[2] == 0 and v[5] == 0] + [(3, 5, 0, 2, 0, 0), (4, 0, 0, 5, 0, 0), (1, 2, 0, 3, 4, 0), (0, 7, 0, 1, 6, 0), (9, 9, 0, 7, 0, 0)]
+        for p in self.PRIMES:
+            for v in reps:
+                n, d = self.red(v, p)
+                if (d[0] * d[0] - d[0] * d[1] + d[1] * d[1]) % p == 0:
+                    continue                                     # denominator not invertible: outside the field laws
+                try:
+                    got = self.attrs(m.call(fi, [m.instantiate(self.cls, [p, *v], {})], {}), p)
+                except _Raised as r:
+                    return f"modulo {p}, wp_compress of {v} raises {r.kind}"
+                if got is None or not self.same(self.red(got, p), (n, d), p):
+                    return f"modulo {p}, wp_compress of {v} (numerator a, b, c / denominator aC, bC, cC) gives {got}, which is a different field element"
+                if (got[2] % p, got[3] % p, got[4] % p, got[5] % p) != (0, 1, 0, 0):
+                    return f"modulo {p}, wp_compress of {v} gives {got}, which still has a denominator"
         return ""
 
     def modinv(self) -> str:
@@ -2141,7 +2574,9 @@ class _Obj:
 
 import binascii as _binascii  # noqa: E402
 import builtins as _builtins  # noqa: E402
+import collections as _collections  # noqa: E402
 import functools as _functools  # noqa: E402
+import hashlib as _hashlib  # noqa: E402
 import itertools as _itertools  # noqa: E402
 import math as _math  # noqa: E402
 import operator as _operator  # noqa: E402
@@ -2149,14 +2584,22 @@ import struct as _struct  # noqa: E402
 
 _MODEL_BUILTINS = {k: getattr(_builtins, k) for k in (
     "len", "all", "any", "bool", "int", "float", "sum", "min", "max", "list", "tuple", "set", "frozenset", "dict", "sorted", "next", "iter", "zip",
-    "enumerate", "range", "reversed", "abs", "str", "bytes", "filter", "map", "divmod", "isinstance", "round", "pow", "ord", "chr", "repr",
-    "KeyError", "IndexError", "ValueError", "TypeError", "RuntimeError", "Exception", "StopIteration", "AssertionError", "NotImplementedError")}
-_MODEL_MODULES = {"binascii": _binascii, "struct": _struct, "operator": _operator, "functools": _functools, "itertools": _itertools, "math": _math}
+    "enumerate", "range", "reversed", "abs", "str", "bytes", "bytearray", "filter", "map", "divmod", "isinstance", "round", "pow", "ord", "chr", "repr",
+    "hex", "bin", "oct", "format", "slice", "callable",
+    "KeyError", "IndexError", "ValueError", "TypeError", "RuntimeError", "Exception", "StopIteration", "AssertionError", "NotImplementedError",
+    "LookupError", "ArithmeticError", "ZeroDivisionError", "OverflowError", "AttributeError")}
+# pure standard-library modules whose functions run on model values (nothing of the analysed repository is imported)
+_MODEL_MODULES = {"binascii": _binascii, "struct": _struct, "operator": _operator, "functools": _functools, "itertools": _itertools, "math": _math,
+                  "collections": _collections, "hashlib": _hashlib}
 _MODEL_FROM = {"reduce": _functools.reduce, "and_": _operator.and_, "or_": _operator.or_, "mul": _operator.mul, "add": _operator.add,
                "itemgetter": _operator.itemgetter, "chain": _itertools.chain, "islice": _itertools.islice, "prod": _math.prod,
                "unpack": _struct.unpack, "pack": _struct.pack, "hexlify": _binascii.hexlify, "unhexlify": _binascii.unhexlify}
+# library VALUES (not functions) whose public methods / attributes may be used: precompiled formats, partial applications, getters
+_MODEL_LIB_TYPES = (_struct.Struct, _functools.partial, _operator.itemgetter, _collections.Counter, _collections.OrderedDict, _collections.defaultdict,
+                    _collections.deque, bytearray)
+_IMPURE_LIB = {"lru_cache", "cache", "cached_property", "wraps", "singledispatch", "total_ordering", "update_wrapper", "tee"}
 _MODEL_VALUE_TYPES = (dict, list, tuple, set, frozenset, str, bytes, int, float, bool, range, type(None), type({}.items()), type({}.keys()),
-                      type({}.values()))
+                      type({}.values()), type(_hashlib.sha256()), type(_hashlib.sha1()), *_MODEL_LIB_TYPES)
 _BINOPS = {ast.Add: _operator.add, ast.Sub: _operator.sub, ast.Mult: _operator.mul, ast.Div: _operator.truediv, ast.FloorDiv: _operator.floordiv,
            ast.Mod: _operator.mod, ast.Pow: _operator.pow, ast.BitAnd: _operator.and_, ast.BitOr: _operator.or_, ast.BitXor: _operator.xor,
            ast.LShift: _operator.lshift, ast.RShift: _operator.rshift}
@@ -2195,12 +2638,141 @@ def _lost_function(repo, module, name: str):
     return _LOST[key]
 
 
+def _late_raise(values: list, r: "_Raised"):
+    """a generator body that raised after producing `values`: the consumer gets the values and then the exception (laziness of a pure generator)"""
+    yield from values
+    raise r
+
+
+class _RecTuple(tuple):
+    """model value of a NamedTuple class of the analysed code: a real tuple that remembers its class (methods, properties) and field names"""
+
+    def __new__(cls, values, ci, fields):
+        self = super().__new__(cls, values)
+        self.ci = ci
+        self.fields = tuple(fields)
+        return self
+
+
+def _decorated_dataclass(node: ast.ClassDef) -> bool:
+    for d in node.decorator_list:
+        f = d.func if isinstance(d, ast.Call) else d
+        if (chain(f) or "").rsplit(".", 1)[-1] == "dataclass":
+            return True
+    return False
+
+
+def _record_kind(ci) -> str | None:
+    """'namedtuple' | 'dataclass' | 'plain' (an __init__ that only stores its parameters) | 'enum' | None"""
+    bases = {b.rsplit(".", 1)[-1] for b in ci.base_names}
+    if bases & {"Enum", "IntEnum", "StrEnum", "Flag", "IntFlag"}:
+        return "enum"
+    if "NamedTuple" in bases:
+        return "namedtuple"
+    if any(_record_kind(b) == "namedtuple" for b in ci.bases):
+        return None                                          # subclass of a NamedTuple class: fields are inherited, not declared
+    if _decorated_dataclass(ci.node) and "__init__" not in ci.methods:
+        return "dataclass"
+    if not ci.bases and all(b in ("object",) for b in ci.base_names) and "__init__" in ci.methods and _plain_init(ci.methods["__init__"]) is not None:
+        return "plain"
+    return None
+
+
+def _plain_init(init: FuncInfo):
+    """[(parameter, attribute, default)] when __init__ is nothing but `self.attr = parameter` stores (each parameter stored once); None otherwise"""
+    a = init.node.args
+    if a.vararg or a.kwarg or a.kwonlyargs or a.posonlyargs or not a.args:
+        return None
+    me = a.args[0].arg
+    names = [x.arg for x in a.args[1:]]
+    defaults = dict(zip(names[len(names) - len(a.defaults):], a.defaults))
+    stored: dict[str, str] = {}
+    for st in init.node.body:
+        if isinstance(st, ast.Expr) and isinstance(st.value, ast.Constant):
+            continue
+        if isinstance(st, ast.AnnAssign) and st.value is not None:
+            tg, val = st.target, st.value
+        elif isinstance(st, ast.Assign) and len(st.targets) == 1:
+            tg, val = st.targets[0], st.value
+        else:
+            return None
+        val = strip_cast(val)
+        if not (isinstance(tg, ast.Attribute) and isinstance(tg.value, ast.Name) and tg.value.id == me and isinstance(val, ast.Name) and val.id in names):
+            return None
+        if val.id in stored or tg.attr in stored.values():
+            return None
+        stored[val.id] = tg.attr
+    if set(stored) != set(names):
+        return None
+    return [(n, stored[n], defaults.get(n)) for n in names]
+
+
+def _record_fields(ci):
+    """[(constructor parameter, attribute, default expression | None)] of a record class in positional order; None when not decidable from the class body"""
+    kind = _record_kind(ci)
+    if kind == "plain":
+        return _plain_init(ci.methods["__init__"])
+    if kind not in ("namedtuple", "dataclass"):
+        return None
+    if kind == "dataclass" and any(_record_kind(b) is not None or _decorated_dataclass(b.node) for b in ci.bases):
+        return None                                          # inherited dataclass fields: order spans several classes
+    if kind == "dataclass":
+        for d in ci.node.decorator_list:
+            if isinstance(d, ast.Call) and any(k.arg in ("init", "kw_only") for k in d.keywords):
+                return None
+    out = []
+    for st in ci.node.body:
+        if not (isinstance(st, ast.AnnAssign) and isinstance(st.target, ast.Name)):
+            continue
+        if "ClassVar" in norm(st.annotation):
+            continue
+        default = st.value
+        if isinstance(default, ast.Call) and (chain(default.func) or "").rsplit(".", 1)[-1] == "field":
+            kws = {k.arg: k.value for k in default.keywords}
+            if set(kws) - {"default", "repr", "compare", "hash", "metadata"}:
+                return None                                  # default_factory / init=False / kw_only: not a plain positional field
+            default = kws.get("default")
+        out.append((st.target.id, st.target.id, default))
+    return out or None
+
+
+def _bind_record(fields, nargs: int, kwnames) -> list | None:
+    """per field: ('pos', i) | ('kw', name) | ('default',) for a constructor call with nargs positional arguments and the given keyword names; None if ill-formed"""
+    if nargs > len(fields):
+        return None
+    out = []
+    kwnames = list(kwnames)
+    for i, (pname, _, default) in enumerate(fields):
+        if i < nargs:
+            if pname in kwnames:
+                return None
+            out.append(("pos", i))
+        elif pname in kwnames:
+            out.append(("kw", pname))
+        elif default is not None:
+            out.append(("default",))
+        else:
+            return None
+    if set(kwnames) - {f[0] for f in fields}:
+        return None
+    return out
+
+
 class _Model:
     def __init__(self, repo, budget: int = 50000) -> None:
         self.repo = repo
         self.budget = budget
         self.depth = 0
         self._closure_fi = None
+        self.globals: dict = {}                 # module-level values are created once per model (a module-level table / memo keeps its state)
+        self.enums: dict = {}
+        self.same_address: dict = {}            # id(model object) -> id(an earlier, freed model object whose address it was given)
+
+    def model_id(self, o):
+        """id() in the interpreted code: the address of a model object; an object created after another one was freed may get its address"""
+        if not isinstance(o, (_Obj, _RecTuple)):
+            raise _NoModel("id() of a non-object value")
+        return self.same_address.get(id(o), id(o))
 
     # ---- functions
     def call(self, fi: FuncInfo, args: list, kwargs: dict | None = None):
@@ -2241,6 +2813,10 @@ class _Model:
                 ret = None
             except _Return as r:
                 ret = r.value
+            except _Raised as r:
+                if not is_gen:
+                    raise
+                return _late_raise(env["@yields"], r)
             return iter(env["@yields"]) if is_gen else ret
         except (_NoModel, _Raised, _Return, _Break, _Continue):
             raise
@@ -2299,7 +2875,7 @@ class _Model:
                 cur.extend(rhs)
                 new = cur
             else:
-                new = self._apply(op, cur, rhs)
+                new = self._binop(s.op, cur, rhs)
             self.assign(s.target, new, env, fi)
             return
         if isinstance(s, ast.Return):
@@ -2385,12 +2961,88 @@ class _Model:
             self._closure_fi = fi
             return
         if isinstance(s, ast.With):
-            for i in s.items:                             # `with <module-level lock>:` only
-                if i.optional_vars is not None or not (isinstance(i.context_expr, ast.Name) and i.context_expr.id not in env):
+            caught: list = []
+            for i in s.items:                             # `with <module-level lock>:` and `with suppress(<exception classes>):` only
+                ce = i.context_expr
+                if i.optional_vars is None and isinstance(ce, ast.Call) and not ce.keywords and self._lib_name(ce.func, fi) == ("contextlib", "suppress"):
+                    caught.extend(ce.args)
+                    continue
+                if i.optional_vars is not None or not (isinstance(ce, ast.Name) and ce.id not in env):
                     raise _NoModel(f"statement `{head(s)[:60]}`")
-            self.block(s.body, env, fi)
+            try:
+                self.block(s.body, env, fi)
+            except _Raised as r:
+                if not self._kind_caught(caught, r.kind):
+                    raise
+            return
+        if isinstance(s, ast.Match):
+            subject = self.ev(s.subject, env, fi)
+            for case in s.cases:
+                if self._match(case.pattern, subject, env, fi) and (case.guard is None or self.ev(case.guard, env, fi)):
+                    self.block(case.body, env, fi)
+                    return
             return
         raise _NoModel(f"statement `{head(s)[:60]}`")
+
+    def _match(self, pat, v, env, fi) -> bool:  # noqa: C901, PLR0911
+        """structural pattern matching on model values (value / singleton / capture / or / sequence / class patterns)"""
+        if isinstance(pat, ast.MatchValue):
+            return bool(self._compare(ast.Eq(), v, self.ev(pat.value, env, fi)))
+        if isinstance(pat, ast.MatchSingleton):
+            return v is pat.value
+        if isinstance(pat, ast.MatchAs):
+            if pat.pattern is not None and not self._match(pat.pattern, v, env, fi):
+                return False
+            if pat.name is not None:
+                env[pat.name] = v
+            return True
+        if isinstance(pat, ast.MatchOr):
+            return any(self._match(x, v, env, fi) for x in pat.patterns)
+        if isinstance(pat, ast.MatchSequence):
+            if not isinstance(v, (list, tuple)) or any(isinstance(x, ast.MatchStar) for x in pat.patterns) or len(v) != len(pat.patterns):
+                if isinstance(v, (list, tuple)) and any(isinstance(x, ast.MatchStar) for x in pat.patterns):
+                    raise _NoModel("starred sequence pattern")
+                return False
+            return all(self._match(x, y, env, fi) for x, y in zip(pat.patterns, v))
+        if isinstance(pat, ast.MatchClass):
+            k = self.ev(pat.cls, env, fi)
+            if _is_class(k):
+                if not self._isinstance(v, k):
+                    return False
+                fields = _record_fields(k[1])
+                if pat.patterns and (fields is None or len(pat.patterns) > len(fields)):
+                    raise _NoModel("positional class pattern")
+                subs = [(fields[i][1], x) for i, x in enumerate(pat.patterns)] + list(zip(pat.kwd_attrs, pat.kwd_patterns))
+                return all(self._match(x, self.attr_of(v, name, fi), env, fi) for name, x in subs)
+            if isinstance(k, type) and not pat.patterns and not pat.kwd_attrs:
+                return not isinstance(v, _Obj) and not _is_class(v) and isinstance(v, k)
+            if isinstance(k, type) and len(pat.patterns) == 1 and not pat.kwd_attrs and k in (int, str, bytes, bool, float, list, tuple, dict, set, frozenset):
+                return not isinstance(v, _Obj) and not _is_class(v) and isinstance(v, k) and self._match(pat.patterns[0], v, env, fi)
+            raise _NoModel("class pattern")
+        raise _NoModel(f"pattern `{type(pat).__name__}`")
+
+    def _kind_caught(self, type_exprs, kind: str) -> bool:
+        raised = getattr(_builtins, kind, None)
+        for t in type_exprs:
+            for one in (t.elts if isinstance(t, ast.Tuple) else [t]):
+                nm = (chain(one) or "").rsplit(".", 1)[-1]
+                if nm == kind:
+                    return True
+                caught = getattr(_builtins, nm, None)
+                if isinstance(raised, type) and isinstance(caught, type) and issubclass(raised, caught):
+                    return True
+        return False
+
+    def _lib_name(self, f: ast.AST, fi):
+        """(module, name) of the standard-library object a callee expression names through this module's imports, else None"""
+        if isinstance(f, ast.Name):
+            imp = fi.module.imports.get(f.id)
+            return (imp[0], imp[1]) if imp is not None and imp[1] is not None and imp[0].split(".")[0] not in ("ipv8",) else None
+        if isinstance(f, ast.Attribute) and isinstance(f.value, ast.Name):
+            imp = fi.module.imports.get(f.value.id)
+            if imp is not None and imp[1] is None:
+                return (imp[0], f.attr)
+        return None
 
     @staticmethod
     def _handles(h: ast.ExceptHandler, kind: str) -> bool:
@@ -2476,13 +3128,28 @@ class _Model:
             _, node, env, fi = f
             params = [x.arg for x in node.args.posonlyargs + node.args.args]
 
-            def run(*a):
-                if len(a) != len(params) or node.args.vararg or node.args.kwarg or node.args.kwonlyargs:
+            def run(*a, **k):
+                if node.args.vararg or node.args.kwarg or node.args.kwonlyargs or len(a) > len(params):
                     raise _NoModel("lambda arity")
-                return self.ev(node.body, {**env, **dict(zip(params, a))}, fi)
+                bound = dict(zip(params, a))
+                for nm, v in k.items():
+                    if nm not in params or nm in bound:
+                        raise _NoModel("lambda arity")
+                    bound[nm] = v
+                defaults = dict(zip(params[len(params) - len(node.args.defaults):], node.args.defaults))
+                for nm in params:
+                    if nm not in bound:
+                        if nm not in defaults:
+                            raise _NoModel("lambda arity")
+                        bound[nm] = self.ev(defaults[nm], env, fi)
+                return self.ev(node.body, {**env, **bound}, fi)
             return run
         if isinstance(f, tuple) and f and f[0] == "@func":
             return lambda *a, **k: self.call(f[1], list(a), k)
+        if isinstance(f, tuple) and f and f[0] == "@bound":
+            return lambda *a, **k: self.call(f[1], [f[2], *a], k)
+        if isinstance(f, _Obj) and f.cls is not None and f.cls.lookup("__call__") is not None:
+            return lambda *a, **k: self.call(f.cls.lookup("__call__"), [f, *a], k)
         if _is_class(f):
             return lambda *a, **k: self.instantiate(f[1], list(a), k)
         if isinstance(f, tuple) and f and f[0] == "@closure":
@@ -2508,11 +3175,30 @@ class _Model:
                 return env[e.id]
             if e.id in _MODEL_BUILTINS:
                 return _MODEL_BUILTINS[e.id]
-            if e.id in _MODEL_MODULES:
+            if e.id == "id" and fi.module.imports.get("id") is None and self.repo.resolve_name(fi.module, "id") is None:
+                return self.model_id
+            imp = fi.module.imports.get(e.id)
+            if imp is not None and imp[0] in _MODEL_MODULES:
+                if imp[1] is None:
+                    return _MODEL_MODULES[imp[0]]
+                return self._lib(imp[0], imp[1])
+            if imp is not None and imp == ("typing", "NamedTuple"):
+                import typing
+                return typing.NamedTuple
+            if imp is not None and imp == ("dataclasses", "astuple"):
+                return self._astuple
+            if imp is not None and imp == ("dataclasses", "asdict"):
+                return lambda o: dict(zip([f[1] for f in self._fields_of(o)], self._astuple(o)))
+            if imp is not None and imp == ("dataclasses", "replace"):
+                return self._replace_rec
+            if imp is None and e.id in _MODEL_MODULES:
                 return _MODEL_MODULES[e.id]
             r = self.repo.resolve_name(fi.module, e.id)
             if isinstance(r, tuple) and r and r[0] == "const":
-                return self.ev(r[2], {}, fi)
+                key = (r[1].relpath, norm(r[2]), id(r[2]))
+                if key not in self.globals:
+                    self.globals[key] = self.ev(r[2], {}, self._module_context(r[1], fi))
+                return self.globals[key]
             if isinstance(r, FuncInfo):
                 return ("@func", r)
             if r is not None and not isinstance(r, tuple) and hasattr(r, "mro") and hasattr(r, "methods"):
@@ -2552,27 +3238,15 @@ class _Model:
                 return not v
             return self._apply({ast.USub: _operator.neg, ast.UAdd: _operator.pos, ast.Invert: _operator.invert}[type(e.op)], v)
         if isinstance(e, ast.BinOp):
-            op = _BINOPS.get(type(e.op))
-            if op is None:
+            if _BINOPS.get(type(e.op)) is None:
                 raise _NoModel("operator")
             le, ri = self.ev(e.left, env, fi), self.ev(e.right, env, fi)
-            if isinstance(le, _Obj) or isinstance(ri, _Obj):
-                dn = _DUNDER.get(type(e.op))
-                t = le.cls.lookup(dn) if isinstance(le, _Obj) and le.cls is not None and dn else None
-                if t is None:
-                    raise _NoModel("arithmetic on an opaque object")
-                return self.call(t, [le, ri], {})
-            return self._apply(op, le, ri)
+            return self._binop(e.op, le, ri)
         if isinstance(e, ast.Compare):
             left = self.ev(e.left, env, fi)
             for op, r in zip(e.ops, e.comparators):
                 right = self.ev(r, env, fi)
-                if isinstance(left, _Obj) and isinstance(op, (ast.Eq, ast.NotEq)) and left.cls is not None and left.cls.lookup("__eq__") is not None:
-                    res = bool(self.call(left.cls.lookup("__eq__"), [left, right], {})) == isinstance(op, ast.Eq)
-                elif (isinstance(left, _Obj) or isinstance(right, _Obj)) and not isinstance(op, (ast.Is, ast.IsNot, ast.Eq, ast.NotEq, ast.In, ast.NotIn)):
-                    raise _NoModel("ordering of opaque objects")
-                else:
-                    res = self._apply(_CMPOPS[type(op)], left, right)
+                res = self._compare(op, left, right)
                 if not res:
                     return False
                 left = right
@@ -2589,28 +3263,7 @@ class _Model:
                 raise _NoModel("subscript of an opaque object")
             return self._apply(_operator.getitem, c, self._index(e.slice, env, fi))
         if isinstance(e, ast.Attribute):
-            o = self.ev(e.value, env, fi)
-            if isinstance(o, _Obj) or _is_class(o):
-                if isinstance(o, _Obj) and e.attr in o.attrs:
-                    return o.attrs[e.attr]
-                ci = o.cls if isinstance(o, _Obj) else o[1]
-                if ci is not None:
-                    cx = ci.lookup_attr(e.attr)
-                    if cx is not None:
-                        return self.ev(cx, {}, self._class_context(ci, fi))
-                    t = ci.lookup(e.attr)
-                    if t is not None and "property" in t.decorator_names() and isinstance(o, _Obj):
-                        return self.call(t, [o], {})
-                    if t is not None:
-                        raise _NoModel(f"method object .{e.attr}")
-                raise _NoModel(f"attribute .{e.attr} of {o!r}")
-            if any(o is m for m in _MODEL_MODULES.values()):
-                return getattr(o, e.attr)
-            if any(o is t for t in (int, bytes, str, dict, float, list, tuple)) and not e.attr.startswith("_"):
-                return self._apply(getattr, o, e.attr)
-            if isinstance(o, _MODEL_VALUE_TYPES) and not e.attr.startswith("_"):
-                return self._apply(getattr, o, e.attr)
-            raise _NoModel(f"attribute .{e.attr}")
+            return self.attr_of(self.ev(e.value, env, fi), e.attr, fi)
         if isinstance(e, ast.Lambda):
             return ("@lambda", e, env, fi)
         if isinstance(e, (ast.ListComp, ast.SetComp, ast.GeneratorExp, ast.DictComp)):
@@ -2642,6 +3295,176 @@ class _Model:
             return "".join(out)
         raise _NoModel(f"expression `{norm(e)[:60]}`")
 
+    def _compare(self, op, left, right):
+        if isinstance(left, _Obj) and isinstance(op, (ast.Eq, ast.NotEq)) and left.cls is not None and left.cls.lookup("__eq__") is not None:
+            return bool(self.call(left.cls.lookup("__eq__"), [left, right], {})) == isinstance(op, ast.Eq)
+        if isinstance(left, _Obj) and isinstance(right, _Obj) and isinstance(op, (ast.Eq, ast.NotEq)) and left.cls is not None and right.cls is not None \
+                and left.cls.node is right.cls.node and _record_kind(left.cls) == "dataclass":
+            same = list(left.attrs) == list(right.attrs) and all(self._compare(ast.Eq(), left.attrs[k], right.attrs[k]) for k in left.attrs)
+            return same == isinstance(op, ast.Eq)                      # a dataclass compares field by field
+        if (isinstance(left, _Obj) or isinstance(right, _Obj)) and not isinstance(op, (ast.Is, ast.IsNot, ast.Eq, ast.NotEq, ast.In, ast.NotIn)):
+            raise _NoModel("ordering of opaque objects")
+        return self._apply(_CMPOPS[type(op)], left, right)
+
+    def _isinstance(self, v, k) -> bool:
+        """k: one class value of the analysed code"""
+        vc = v.cls if isinstance(v, _Obj) else v.ci if isinstance(v, _RecTuple) else None
+        return vc is not None and any(x.node is k[1].node for x in vc.mro())
+
+    def _module_context(self, module, fi: FuncInfo) -> FuncInfo:
+        """a context for evaluating a module-level expression: names resolve in the module that defines it"""
+        if module is fi.module:
+            return fi
+        return FuncInfo(name="<module>", qualname="<module>", node=module.tree, module=module, cls=None)
+
+    def _lib(self, mod: str, name: str):
+        """the standard-library object mod.name, with attribute / method getters replaced by versions that understand model objects"""
+        if name in _IMPURE_LIB or name.startswith("_"):
+            raise _NoModel(f"library name {mod}.{name}")
+        if mod == "operator" and name == "attrgetter":
+            def attrgetter(*names):
+                def get(o):
+                    vals = []
+                    for nm in names:
+                        v = o
+                        for part in nm.split("."):
+                            v = self.attr_of(v, part, None)
+                        vals.append(v)
+                    return vals[0] if len(vals) == 1 else tuple(vals)
+                return get
+            return attrgetter
+        if mod == "operator" and name == "methodcaller":
+            def methodcaller(nm, *a, **k):
+                return lambda o: self.call_method(o, nm, list(a), k, None)
+            return methodcaller
+        if mod == "operator" and name in ("eq", "ne"):
+            return lambda a, b: self._compare(ast.Eq() if name == "eq" else ast.NotEq(), a, b)
+        if mod == "operator" and name in ("mul", "add", "sub", "floordiv", "truediv", "mod"):
+            opnode = {"mul": ast.Mult, "add": ast.Add, "sub": ast.Sub, "floordiv": ast.FloorDiv, "truediv": ast.Div, "mod": ast.Mod}[name]
+            return lambda a, b: self._binop(opnode(), a, b)
+        try:
+            return getattr(_MODEL_MODULES[mod], name)
+        except AttributeError:
+            raise _NoModel(f"library name {mod}.{name}") from None
+
+    def _fields_of(self, o):
+        ci = o.cls if isinstance(o, _Obj) else o.ci if isinstance(o, _RecTuple) else None
+        fields = _record_fields(ci) if ci is not None else None
+        if fields is None:
+            raise _NoModel("fields of a non-record object")
+        return fields
+
+    def _astuple(self, o):
+        return tuple(self.attr_of(o, f[1], None) for f in self._fields_of(o))
+
+    def _replace_rec(self, o, **changes):
+        fields = self._fields_of(o)
+        ci = o.cls if isinstance(o, _Obj) else o.ci
+        vals = {f[0]: self.attr_of(o, f[1], None) for f in fields}
+        if set(changes) - set(vals):
+            raise _Raised("TypeError")
+        vals.update(changes)
+        return self.instantiate(ci, [], vals)
+
+    def _binop(self, opnode, le, ri):
+        op = _BINOPS.get(type(opnode))
+        if op is None:
+            raise _NoModel("operator")
+        if isinstance(le, _Obj) or isinstance(ri, _Obj):
+            dn = _DUNDER.get(type(opnode))
+            t = le.cls.lookup(dn) if isinstance(le, _Obj) and le.cls is not None and dn else None
+            if t is None:
+                raise _NoModel("arithmetic on an opaque object")
+            return self.call(t, [le, ri], {})
+        return self._apply(op, le, ri)
+
+    def attr_of(self, o, attr: str, fi):  # noqa: C901, PLR0911, PLR0912
+        """value of o.attr for a model value o"""
+        if isinstance(o, _RecTuple):
+            if attr in o.fields:
+                return o[o.fields.index(attr)]
+            if attr == "_fields":
+                return o.fields
+            if attr == "_asdict":
+                return lambda: dict(zip(o.fields, o))
+            if attr == "_replace":
+                return lambda **kw: self._replace_rec(o, **kw)
+            t = o.ci.lookup(attr)
+            if t is not None and "property" in t.decorator_names():
+                return self.call(t, [o], {})
+            if t is not None:
+                return ("@bound", t, o)
+            cx = o.ci.lookup_attr(attr)
+            if cx is not None:
+                return self.ev(cx, {}, self._class_context(o.ci, fi))
+            if attr in ("count", "index"):
+                return getattr(o, attr)
+            raise _NoModel(f"attribute .{attr} of a {o.ci.name}")
+        if isinstance(o, _Obj) or _is_class(o):
+            if isinstance(o, _Obj) and attr in o.attrs:
+                return o.attrs[attr]
+            ci = o.cls if isinstance(o, _Obj) else o[1]
+            if ci is not None:
+                if _is_class(o) and _record_kind(ci) == "enum" and attr in ci.attrs:
+                    return self._enum_member(ci, attr, fi)
+                cx = ci.lookup_attr(attr)
+                if cx is not None:
+                    return self.ev(cx, {}, self._class_context(ci, fi))
+                t = ci.lookup(attr)
+                if t is not None and "property" in t.decorator_names() and isinstance(o, _Obj):
+                    return self.call(t, [o], {})
+                if t is not None and isinstance(o, _Obj) and not ({"staticmethod", "classmethod"} & set(t.decorator_names())):
+                    return ("@bound", t, o)
+                if t is not None:
+                    raise _NoModel(f"method object .{attr}")
+            raise _NoModel(f"attribute .{attr} of {o!r}")
+        if any(o is m for m in _MODEL_MODULES.values()):
+            name = next(k for k, m in _MODEL_MODULES.items() if m is o)
+            return self._lib(name, attr)
+        if any(o is t for t in (int, bytes, str, dict, float, list, tuple)) and not attr.startswith("_"):
+            return self._apply(getattr, o, attr)
+        if isinstance(o, _MODEL_VALUE_TYPES) and not attr.startswith("_"):
+            return self._apply(getattr, o, attr)
+        if isinstance(o, tuple) and hasattr(o, "_fields") and attr in ("_fields", "_asdict", "_replace"):
+            return getattr(o, attr)                                   # a collections.namedtuple value created by the interpreted code
+        raise _NoModel(f"attribute .{attr}")
+
+    def _enum_member(self, ci, name: str, fi):
+        """one object per member of an Enum class (identity comparisons work); IntEnum / StrEnum members are their plain values"""
+        key = (id(ci.node), name)
+        if key not in self.enums:
+            members = [k for k, v in ci.attrs.items() if not k.startswith("_") and not isinstance(v, ast.Lambda)]
+            expr = ci.attrs[name]
+            if isinstance(expr, ast.Call) and (chain(expr.func) or "").rsplit(".", 1)[-1] == "auto" and not expr.args:
+                value = members.index(name) + 1
+            else:
+                value = self.ev(expr, {}, self._class_context(ci, fi))
+            bases = {b.rsplit(".", 1)[-1] for b in ci.base_names}
+            for other, (ov, obj) in [(k[1], v) for k, v in self.enums.items() if k[0] == id(ci.node)]:
+                if not isinstance(ov, _Obj) and ov == value and type(ov) is type(value):
+                    self.enums[key] = (value, obj)                  # an alias: same value, same member
+                    break
+            else:
+                plain = bases & {"IntEnum", "StrEnum", "IntFlag"} or len(ci.base_names) > 1
+                if plain and len(ci.base_names) > 1 and not bases & {"IntEnum", "StrEnum", "IntFlag"} and not {"int", "str"} & set(ci.base_names):
+                    raise _NoModel(f"enum {ci.name} with a mixed-in base")
+                self.enums[key] = (value, value if plain else _Obj(f"{ci.name}.{name}", cls=ci, name=name, value=value))
+        return self.enums[key][1]
+
+    def call_method(self, rv, attr: str, args: list, kw: dict, fi):
+        """rv.attr(*args, **kw) on a model value"""
+        fv = self.attr_of(rv, attr, fi) if not (isinstance(rv, _Obj) or _is_class(rv)) else None
+        if fv is None:
+            ci = rv.cls if isinstance(rv, _Obj) else rv[1]
+            t = ci.lookup(attr) if ci is not None else None
+            if t is not None:
+                return self.call(t, self._bound(rv, t, args), kw)
+            if isinstance(rv, _Obj) and attr in rv.attrs:
+                fv = rv.attrs[attr]
+            else:
+                raise _NoModel(f"method .{attr} of {rv!r}")
+        return self._invoke(fv, args, kw, fi)
+
     def _comp(self, e, i, env, fi, out) -> None:
         if i == len(e.generators):
             out.append((self.ev(e.key, env, fi), self.ev(e.value, env, fi)) if isinstance(e, ast.DictComp) else self.ev(e.elt, env, fi))
@@ -2656,6 +3479,25 @@ class _Model:
                 self._comp(e, i + 1, env, fi, out)
 
     def instantiate(self, ci, args, kw):
+        kind = _record_kind(ci)
+        if kind == "enum":
+            raise _NoModel(f"enum lookup by value {ci.name}(...)")
+        if kind in ("namedtuple", "dataclass"):
+            fields = _record_fields(ci)
+            how = _bind_record(fields, len(args), kw) if fields is not None else None
+            if fields is None:
+                raise _NoModel(f"constructor of the record class {ci.name}")
+            if how is None:
+                raise _Raised("TypeError")
+            ctx_fi = self._class_context(ci, None)
+            vals = [args[h[1]] if h[0] == "pos" else kw[h[1]] if h[0] == "kw" else self.ev(f[2], {}, ctx_fi) for h, f in zip(how, fields)]
+            if kind == "namedtuple":
+                return _RecTuple(vals, ci, [f[1] for f in fields])
+            obj = _Obj(ci.name, cls=ci, **{f[1]: v for f, v in zip(fields, vals)})
+            post = ci.lookup("__post_init__")
+            if post is not None:
+                self.call(post, [obj], {})
+            return obj
         obj = _Obj(ci.name, cls=ci)
         init = ci.lookup("__init__")
         if init is not None:
@@ -2665,7 +3507,8 @@ class _Model:
         return obj
 
     def _class_context(self, ci, fi: FuncInfo) -> FuncInfo:
-        return next(iter(ci.methods.values()), fi)
+        m = next(iter(ci.methods.values()), None)
+        return m if m is not None else FuncInfo(name="<class>", qualname=ci.name, node=ci.node, module=ci.module, cls=ci)
 
     def _bound(self, rv, t: FuncInfo, args: list) -> list:
         """argument list for calling method t through receiver value rv (an object or a class value)"""
@@ -2705,7 +3548,7 @@ class _Model:
             ks = list(k) if isinstance(k, tuple) and not _is_class(k) else [k]
             for one in ks:
                 if _is_class(one):
-                    if isinstance(v, _Obj) and v.cls is not None and any(x.node is one[1].node for x in v.cls.mro()):
+                    if self._isinstance(v, one):
                         return True
                 elif isinstance(one, type):
                     if not isinstance(v, _Obj) and not _is_class(v) and isinstance(v, one):
@@ -2731,28 +3574,44 @@ class _Model:
                 t = ci.lookup(f.attr) if ci is not None else None
                 if t is None and isinstance(rv, _Obj) and ci is None and fi.cls is not None and isinstance(f.value, ast.Name) and f.value.id in ("self", "cls"):
                     t = fi.cls.lookup(f.attr)
-                if t is not None:
+                if t is not None and "property" in t.decorator_names() and isinstance(rv, _Obj):
+                    fv = self.call(t, [rv], {})                # a property that returns a callable
+                elif t is not None:
                     args, kw = self._args(e, env, fi)
                     return self.call(t, self._bound(rv, t, args), kw)
-                if isinstance(rv, _Obj) and f.attr in rv.attrs:
+                elif isinstance(rv, _Obj) and f.attr in rv.attrs:
                     fv = rv.attrs[f.attr]
+                elif _is_class(rv) and ci is not None and ci.lookup_attr(f.attr) is not None:
+                    fv = self.attr_of(rv, f.attr, fi)          # a class-level table entry / callable constant
                 else:
                     raise _NoModel(f"method .{f.attr} of {rv!r}")
+            elif isinstance(rv, _RecTuple):
+                fv = self.attr_of(rv, f.attr, fi)
             elif any(rv is m for m in _MODEL_MODULES.values()):
-                fv = getattr(rv, f.attr)
+                fv = self.attr_of(rv, f.attr, fi)
             elif any(rv is t for t in (int, bytes, str, dict, float, list, tuple)) and not f.attr.startswith("_"):
                 fv = self._apply(getattr, rv, f.attr)
             elif isinstance(rv, _MODEL_VALUE_TYPES) and not f.attr.startswith("_"):
                 fv = self._apply(getattr, rv, f.attr)
+            elif isinstance(rv, tuple) and hasattr(rv, "_fields") and f.attr in ("_asdict", "_replace"):
+                fv = getattr(rv, f.attr)
             elif hasattr(rv, "__next__") and f.attr in ("__next__",):
                 fv = getattr(rv, f.attr)
+            elif f.attr == "from_iterable" and rv is _itertools.chain:
+                fv = _itertools.chain.from_iterable
             else:
                 raise _NoModel(f"method .{f.attr}")
         else:
             fv = self.ev(f, env, fi)
         args, kw = self._args(e, env, fi)
+        return self._invoke(fv, args, kw, fi, e)
+
+    def _invoke(self, fv, args: list, kw: dict, fi, e=None):  # noqa: C901, PLR0911
+        """call a model callable (function / class / bound method / closure / lambda / callable object of the analysed code, or a library function)"""
         if isinstance(fv, tuple) and fv and fv[0] == "@func":
             return self.call(fv[1], args, kw)
+        if isinstance(fv, tuple) and fv and fv[0] == "@bound":
+            return self.call(fv[1], [fv[2], *args], kw)
         if _is_class(fv):
             return self.instantiate(fv[1], args, kw)
         if isinstance(fv, tuple) and fv and fv[0] == "@closure":
@@ -2760,21 +3619,46 @@ class _Model:
             params = [x.arg for x in node.args.posonlyargs + node.args.args]
             if len(args) != len(params) or kw:
                 raise _NoModel("closure arity")
+            if any(isinstance(x, (ast.Yield, ast.YieldFrom)) for x in walk_no_nested(node, include_root_defs=False)):
+                raise _NoModel("generator closure")
             inner = {**cenv, **dict(zip(params, args))}
             try:
-                self.block(node.body, inner, fi)
+                self.block(node.body, inner, fi if fi is not None else self._closure_fi)
             except _Return as r:
                 return r.value
             return None
         if isinstance(fv, tuple) and fv and fv[0] == "@lambda":
-            return self._callable(fv)(*args)
-        if callable(fv) and not isinstance(fv, _Obj):
+            return self._callable(fv)(*args, **kw)
+        if isinstance(fv, (_Obj, _RecTuple)):
+            ci = fv.cls if isinstance(fv, _Obj) else fv.ci
+            t = ci.lookup("__call__") if ci is not None else None
+            if t is None:
+                raise _NoModel(f"call of the non-callable object {fv!r}")
+            return self.call(t, [fv, *args], kw)
+        if callable(fv):
             args = [self._callable(a) for a in args]
             kw = {k: self._callable(v) for k, v in kw.items()}
-            if any(isinstance(a, _Obj) or _is_class(a) for a in args) and fv in (str, repr, bytes, int, float, len, sorted, min, max, sum, abs):
+            opaque = any(_has_opaque(a) for a in args) or any(_has_opaque(v) for v in kw.values())
+            if any(_has_opaque(a, 0) for a in args) and fv in (str, repr, bytes, int, float, len, sorted, min, max, sum, abs):
                 raise _NoModel(f"builtin {getattr(fv, '__name__', fv)}() on an opaque object")
-            return self._apply(fv, *args, **kw)
-        raise _NoModel(f"call `{norm(e)[:60]}`")
+            try:
+                return self._apply(fv, *args, **kw)
+            except _Raised as r:
+                if opaque and r.kind in ("TypeError", "AttributeError"):
+                    # the library function met a model object it cannot work with (no real methods): not what the analysed code would do
+                    raise _NoModel(f"library call {getattr(fv, '__name__', fv)}() on an opaque object") from None
+                raise
+        raise _NoModel(f"call `{norm(e)[:60]}`" if e is not None else "call of a non-callable value")
+
+
+def _has_opaque(v, depth: int = 2) -> bool:
+    if isinstance(v, (_Obj, _RecTuple)) or _is_class(v):
+        return True
+    if depth and isinstance(v, (list, tuple, set, frozenset)):
+        return any(_has_opaque(x, depth - 1) for x in v)
+    if depth and isinstance(v, dict):
+        return any(_has_opaque(x, depth - 1) for x in v.values())
+    return False
 
 
 def _is_class(v) -> bool:
@@ -3046,16 +3930,22 @@ def _elem_facts(ctx: Ctx, frame: _Frame, it: ast.AST, depth: int = 5) -> list[Fa
         return []
     if isinstance(it, ast.Call):
         c = chain(it.func) or ""
-        if c == "filter" and len(it.args) == 2 and not it.keywords:
-            pred, src = it.args
-            pred = strip_cast(pred)
-            if isinstance(pred, ast.Name):
-                sd = single_def(frame.fi, pred.id)
-                pred = strip_cast(sd[0]) if sd is not None and sd[1] is None else pred
+        if c.rsplit(".", 1)[-1] in ("filter", "takewhile") and len(it.args) == 2 and not it.keywords:
+            pred, src = it.args                             # every element that comes out satisfied the predicate
             out = _elem_facts(ctx, frame, src, depth - 1)
-            if isinstance(pred, ast.Lambda) and len(_lambda_params(pred)) == 1 and len(pred.args.args) == 1:
-                out = out + _renamed_facts(frame, [pred.body], pred.args.args[0].arg)
+            lam = _as_predicate(ctx, frame, pred)
+            if lam is not None:
+                out = out + _renamed_facts(frame, [lam[1]], lam[0])
             return out
+        if c.rsplit(".", 1)[-1] == "filterfalse" and len(it.args) == 2 and not it.keywords:
+            pred, src = it.args
+            out = _elem_facts(ctx, frame, src, depth - 1)
+            lam = _as_predicate(ctx, frame, pred)
+            if lam is not None:
+                out = out + _renamed_facts(frame, [lam[1]], lam[0], False)
+            return out
+        if c.rsplit(".", 1)[-1] in ("islice", "dropwhile") and len(it.args) >= 2 and not it.keywords:
+            return _elem_facts(ctx, frame, it.args[0] if c.endswith("islice") else it.args[1], depth - 1)     # a sub-sequence of the source
         if c in ("list", "tuple", "sorted", "iter", "reversed", "set", "frozenset") and len(it.args) >= 1:
             return _elem_facts(ctx, frame, it.args[0], depth - 1)
         out = None
@@ -3101,6 +3991,95 @@ def _elem_facts(ctx: Ctx, frame: _Frame, it: ast.AST, depth: int = 5) -> list[Fa
             return res or []
         return []
     return []
+
+
+def _single_return(fi: FuncInfo):
+    """the expression a function made of one `return E` (after a docstring) returns, else None"""
+    body = [st for st in fi.node.body if not (isinstance(st, ast.Expr) and isinstance(st.value, ast.Constant))]
+    if len(body) == 1 and isinstance(body[0], ast.Return) and body[0].value is not None:
+        return body[0].value
+    return None
+
+
+def _as_predicate(ctx: Ctx, frame: _Frame, pred: ast.AST, depth: int = 3):
+    """
+    (variable, condition over it) for a one-argument predicate however it is spelled: a lambda, a local bound to one, a NEW
+    one-expression function, functools.partial of such a function with its leading arguments bound, or an instance of a small
+    NEW class whose __call__ is one expression (its attributes are the constructor arguments).  None when it cannot be read.
+    """
+    pred = strip_cast(pred)
+    if depth <= 0:
+        return None
+    if isinstance(pred, ast.Lambda):
+        if len(_lambda_params(pred)) == 1 and len(pred.args.args) == 1:
+            return pred.args.args[0].arg, pred.body
+        return None
+    if isinstance(pred, ast.Name):
+        sd = single_def(frame.fi, pred.id)
+        if sd is not None and sd[1] is None:
+            return _as_predicate(ctx, frame, sd[0], depth - 1)
+
+    def new_function(f: ast.AST):
+        try:
+            if isinstance(f, ast.Name):
+                r = ctx.repo.resolve_name(frame.fi.module, f.id)
+                if isinstance(r, FuncInfo) and _is_new(r):
+                    return r, None
+            if isinstance(f, ast.Attribute) and isinstance(f.value, ast.Name) and f.value.id in ("self", "cls") and frame.fi.cls is not None:
+                t = frame.fi.cls.lookup(f.attr)
+                if t is not None and _is_new(t):
+                    return t, f.value
+        except Exception:  # noqa: BLE001
+            return None
+        return None
+
+    def instantiate(t: FuncInfo, recv, bound: list[ast.AST], kws: dict):
+        ret = _single_return(t)
+        a = t.node.args
+        if ret is None or a.vararg or a.kwarg or a.kwonlyargs:
+            return None
+        names = [x.arg for x in a.posonlyargs + a.args]
+        env: dict[str, ast.AST] = {}
+        if t.cls is not None and "staticmethod" not in t.decorator_names():
+            if not names:
+                return None
+            if recv is not None and not (isinstance(recv, ast.Name) and recv.id == names[0]):
+                env[names[0]] = recv
+            names = names[1:]
+        if len(bound) > len(names) or set(kws) - set(names):
+            return None
+        env.update(zip(names, bound))
+        env.update(kws)
+        free = [n for n in names if n not in env]
+        if len(free) != 1:
+            return None
+        return free[0], _simp(_subst(ret, env))
+    got = new_function(pred)
+    if got is not None:
+        return instantiate(got[0], got[1], [], {})
+    if isinstance(pred, ast.Call) and _libfn(pred.func) == "partial" and pred.args and not any(isinstance(x, ast.Starred) for x in pred.args) \
+            and not any(k.arg is None for k in pred.keywords):
+        got = new_function(strip_cast(pred.args[0]))
+        if got is not None:
+            return instantiate(got[0], got[1], [_canon(frame, x) for x in pred.args[1:]], {k.arg: _canon(frame, k.value) for k in pred.keywords})
+    if isinstance(pred, ast.Call):
+        rec = _record_ctor(pred)
+        if rec is not None and _is_new_class(rec[0]) and rec[0].lookup("__call__") is not None and "__post_init__" not in rec[0].methods:
+            canon_call = ast.Call(func=pred.func, args=[_canon(frame, x) for x in pred.args],
+                                  keywords=[ast.keyword(arg=k.arg, value=_canon(frame, k.value)) for k in pred.keywords])
+            return instantiate(rec[0].lookup("__call__"), canon_call, [], {})
+    if isinstance(pred, ast.Call):
+        # a combinator of the standard library applied to the element: partial(eq, wanted)(x) is wanted == x, methodcaller / itemgetter likewise
+        var = "__elem__"
+        applied = _simp(ast.Call(func=pred, args=[ast.Name(id=var, ctx=ast.Load())], keywords=[]))
+        if isinstance(applied, (ast.Compare, ast.BoolOp, ast.UnaryOp, ast.BinOp)):
+            return var, applied
+    return None
+
+
+def _is_new_class(ci) -> bool:
+    tab = load_table().get(ci.module.relpath)
+    return tab is None or not any(q.split(".")[0] == ci.name for q in tab)
 
 
 def _about(ctx: Ctx, frame: _Frame, e: ast.AST) -> list[Fact]:
@@ -3249,6 +4228,14 @@ def _value_facts(ctx: Ctx, frame: _Frame, e: ast.AST, depth: int = 5) -> list[Fa
             return _value_facts(ctx, frame, b[1], depth - 1)
         return []
     if isinstance(e, ast.Call) and chain(e.func) == "next" and e.args:
+        src = strip_cast(e.args[0])
+        if isinstance(src, ast.Name):
+            sd = single_def(frame.fi, src.id)
+            src = strip_cast(sd[0]) if sd is not None and sd[1] is None else src
+        if isinstance(src, ast.Call) and (chain(src.func) or "").rsplit(".", 1)[-1] == "dropwhile" and len(src.args) == 2 and not src.keywords:
+            lam = _as_predicate(ctx, frame, src.args[0])          # next(dropwhile(p, xs)): the first element that does not satisfy p
+            first = _renamed_facts(frame, [lam[1]], lam[0], False) if lam is not None else []
+            return first + _elem_facts(ctx, frame, src.args[1], depth - 1)
         return _elem_facts(ctx, frame, e.args[0], depth - 1)
     if isinstance(e, ast.Subscript) and not isinstance(e.slice, ast.Slice):
         return _elem_facts(ctx, frame, e.value, depth - 1)
@@ -3366,6 +4353,111 @@ def _check_range_certainty(ctx: Ctx, pb: FuncInfo) -> None:
               facts=[f"{runs} model aggregates evaluated"])
 
 
+_MUTABLE_CTORS = {"dict", "list", "set", "defaultdict", "OrderedDict", "Counter", "deque", "WeakValueDictionary", "WeakKeyDictionary", "bytearray", "ChainMap"}
+
+
+def _module_state_reads(ctx: Ctx, root: FuncInfo) -> list[str]:
+    """
+    Module-level MUTABLE state a function (or a NEW helper it calls) can read or write: names of module-level containers (dict /
+    list / set displays, comprehensions, dict() / defaultdict() / ... calls) it mentions, `global` declarations, and parameters
+    with a mutable default (the def-time object is shared by all calls).  Constants (tuples, numbers, strings, frozen tables that
+    are only read are still containers - they are reported too and the caller decides by evaluation).
+    """
+    out: list[str] = []
+
+    def mutable(e: ast.AST) -> bool:
+        e = strip_cast(e)
+        if isinstance(e, (ast.Dict, ast.List, ast.Set, ast.DictComp, ast.ListComp, ast.SetComp)):
+            return True
+        return isinstance(e, ast.Call) and (chain(e.func) or "").rsplit(".", 1)[-1] in _MUTABLE_CTORS
+    for fr in _frames(ctx, root):
+        fi = fr.fi
+        a = fi.node.args
+        for d in list(a.defaults) + [d for d in a.kw_defaults if d is not None]:
+            if mutable(d):
+                out.append(f"{fi.qualname}: mutable default `{norm(d)[:30]}`")
+        bound = set(fi.params())
+        for n in ast.walk(fi.node):
+            if isinstance(n, ast.Name) and isinstance(n.ctx, (ast.Store, ast.Del)):
+                bound.add(n.id)
+        declared_global = {g for n in ast.walk(fi.node) if isinstance(n, (ast.Global, ast.Nonlocal)) for g in n.names}
+        for g in sorted(declared_global):
+            out.append(f"{fi.qualname}: global {g}")
+        for n in ast.walk(fi.node):
+            if isinstance(n, ast.Name) and isinstance(n.ctx, ast.Load) and n.id not in bound - declared_global:
+                try:
+                    r = ctx.repo.resolve_name(fi.module, n.id)
+                except Exception:  # noqa: BLE001
+                    r = None
+                if isinstance(r, tuple) and r and r[0] == "const" and mutable(r[2]):
+                    text = f"{fi.qualname}: module-level `{n.id} = {norm(r[2])[:30]}`"
+                    if text not in out:
+                        out.append(text)
+            if isinstance(n, ast.Attribute) and isinstance(n.value, ast.Name) and n.value.id == fi.name and fi.cls is None:
+                out.append(f"{fi.qualname}: function attribute {fi.name}.{n.attr}")
+    return out
+
+
+def _check_decode_stateless(ctx: Ctx) -> None:
+    """
+    boneh.decode(privkey, msgspace, c) is what the honest prover answers challenges with (and what opens the private range data): the
+    message it finds must be a function of the key, the message space and the ciphertext it was GIVEN.  If decode (or a new helper
+    it calls) touches module-level mutable state, it is interpreted twice on model values - in a fresh interpreter, and in one that
+    has already decoded under another private key whose objects were freed and whose addresses the new key's objects received
+    (CPython recycles id() values) - and both runs must give the same answer.  A function without such state is trivially so.
+    """
+    bp = "ipv8/attestation/wallet/primitives/boneh.py"
+    fi = ctx.repo.func(bp, "decode")
+    if len(fi.params()) != 3:
+        raise AnalysisError(f"anchor-lost: {fi.qualname} no longer takes (privkey, msgspace, c)")
+    state = _module_state_reads(ctx, fi)
+    bad = ""
+    facts = ["reads no module-level mutable state"]
+    if state:
+        facts = state[:4]
+        fp = ctx.repo.cls("FP2Value", VP)
+        key_cls = ctx.repo.cls("BonehPrivateKey", PS)
+        p, n, t1, space = 1000003, 35, 5, [0, 1, 2]
+
+        def scenario(with_history: bool):
+            m = _Model(ctx.repo, budget=3000000)
+
+            def key(ga, gb):
+                g = m.instantiate(fp, [p, ga, gb], {})
+                h = m.instantiate(fp, [p, gb + 1, ga + 2], {})
+                return m.instantiate(key_cls, [p, g, h, n, t1], {}), g, h
+
+            def run(k, g, msg):
+                c = m.call(fp.methods["intpow"], [g, msg], {})
+                try:
+                    return m.call(fi, [k, list(space), c], {})
+                except _Raised as r:
+                    return f"raises {r.kind}"
+            first = None
+            if with_history:
+                old = key(2, 3)
+                first = run(old[0], old[1], 1)
+            new = key(5, 7)
+            if with_history:
+                for o, nobj in zip(old, new):                    # the old key was freed; the new key's objects were allocated at its addresses
+                    m.same_address[id(nobj)] = id(o)
+            return first, [run(new[0], new[1], msg) for msg in (2, 1, 0)]
+        try:
+            _, fresh = scenario(False)
+            first, stale = scenario(True)
+        except _NoModel as e:
+            raise AnalysisError(f"undecided: {fi.qualname} keeps state between calls ({state[0]}) and model evaluation of two consecutive keys stopped at {e}") from None
+        if fresh != [2, 1, 0]:
+            raise AnalysisError(f"undecided: {fi.qualname}: the model ciphertexts g^2, g^1, g^0 decode to {fresh} in a fresh interpreter")
+        if stale != fresh:
+            bad = (f"boneh.decode keeps state between calls ({'; '.join(state[:2])}) and its answer depends on it: after decoding under one private key, the ciphertexts "
+                   f"g^2, g^1, g^0 of a second key whose objects received the freed key's addresses (id() values are recycled) decode to {stale} instead of {fresh}. "
+                   "The honest prover then answers bit-pair challenges with the wrong / no message (or crashes on the modulus assertion), so the true value no longer "
+                   "scores 1-2^-n; PengBaoCommitmentPrivate.decode is hit the same way")
+    ctx.check(not bad, "protocol-shape", fi, fi.node, "decode's answer depends only on the key, message space and ciphertext it is given (no state carried between keys)", bad,
+              facts=facts)
+
+
 def rule_protocol_shape(ctx: Ctx) -> None:
     """
     Two necessary conditions of the protocol clauses that ARE visible in code shape (they do not make the proofs sound):
@@ -3377,8 +4469,49 @@ def rule_protocol_shape(ctx: Ctx) -> None:
     pb = repo.method("PengBaoRangeAlgorithm", "certainty", "ipv8/attestation/wallet/pengbaorange/algorithm.py")
     _check_range_certainty(ctx, pb)
     _check_answer_counted(ctx)
+    _check_decode_stateless(ctx)
     oc = repo.method("AttestationCommunity", "on_attestation_chunk", "ipv8/attestation/wallet/community.py")
     _check_request_selection(ctx, oc)
+
+
+_NOT_CONST = object()
+
+
+def _const_eval(ctx: Ctx, fi: FuncInfo, e: ast.AST):
+    """
+    The str / bytes / int value of an expression that is assembled from constants only (a literal, a module or class constant, an
+    entry of a module-level table, the value of an Enum member, "-".join / f-string / + of such), evaluated by the finite-model
+    interpreter without any local environment; _NOT_CONST when it mentions run-time values or is outside the interpreter.
+    """
+    v = const_value(e)
+    if isinstance(v, (str, bytes, int)):
+        return v
+    if any(isinstance(x, (ast.Lambda, ast.Await, ast.Yield, ast.YieldFrom, ast.NamedExpr)) for x in ast.walk(e)):
+        return _NOT_CONST
+    if any(isinstance(x, ast.Name) and (x.id in ("self", "cls") or x.id in fi.params()) for x in ast.walk(e)):
+        return _NOT_CONST
+    try:
+        v = _Model(ctx.repo, budget=2000).ev(e, {}, fi)
+    except (_NoModel, _Raised, _Return, _Break, _Continue, RecursionError):
+        return _NOT_CONST
+    except Exception:  # noqa: BLE001
+        return _NOT_CONST
+    if isinstance(v, _Obj) and "value" in v.attrs and v.cls is not None and _record_kind(v.cls) == "enum":
+        return _NOT_CONST                                     # the member itself, not its value
+    return v if isinstance(v, (str, bytes, int)) and not isinstance(v, bool) else _NOT_CONST
+
+
+def _mentions_const(ctx: Ctx, fi: FuncInfo, e: ast.AST, wanted) -> bool:
+    """does e contain a sub-expression that is the constant `wanted` (however it is spelled)?"""
+    for x in ast.walk(e):
+        if isinstance(x, ast.Constant):
+            if x.value == wanted and type(x.value) is type(wanted):
+                return True
+        elif isinstance(x, (ast.Name, ast.Attribute, ast.Subscript, ast.JoinedStr, ast.BinOp, ast.Call)) and not isinstance(getattr(x, "ctx", None), ast.Store):
+            v = _const_eval(ctx, fi, x)
+            if v is not _NOT_CONST and type(v) is type(wanted) and v == wanted:
+                return True
+    return False
 
 
 def _origin(frame: _Frame, e: ast.AST, depth: int = 6):
@@ -3418,6 +4551,8 @@ def _check_request_selection(ctx: Ctx, oc: FuncInfo) -> None:
                 pv = const_value(pre)
                 if not isinstance(pv, str):
                     pv = ctx.repo.resolve_const(fr.fi.module, pre, fr.fi.cls)
+                if not isinstance(pv, str):
+                    pv = _const_eval(ctx, fr.fi, pre)           # a table entry / enum value / assembled string
                 if pv == "receive-request-attestation":
                     sites.append((fr, c))
     ctx.anchor(sites, "on_attestation_chunk builds the id of the ReceiveAttestationRequestCache it looks up")
@@ -3465,6 +4600,101 @@ def _group_term(e: ast.AST, pnames: dict[str, str]) -> dict[str, Poly]:
     raise AnalysisError(f"group term: unsupported `{norm(e)[:60]}`")
 
 
+def _fact_conditions(facts) -> list[ast.AST]:
+    """facts that hold, written as the conditions (conjuncts) they state"""
+    out = []
+    for f in facts:
+        if f.op == "truthy" and f.pos:
+            out.extend(_and_parts(f.left))
+        elif f.op == "truthy" and not f.pos:
+            out.extend(_and_parts(ast.UnaryOp(op=ast.Not(), operand=f.left)))
+        elif f.op in ("eq", "is") and f.right is not None and isinstance(f.right, ast.Constant) and isinstance(f.right.value, bool):
+            if f.pos == f.right.value:                          # e is True / e == True / e is not False (for a bool e): e is required
+                if f.pos or f.op == "eq":
+                    out.extend(_and_parts(f.left))
+            elif not f.pos and f.op == "eq":
+                pass
+        elif f.op == "eq" and f.pos and f.right is not None:
+            out.append(ast.Compare(left=f.left, ops=[ast.Eq()], comparators=[f.right]))
+        elif f.op == "lt" and f.right is not None:
+            out.append(ast.Compare(left=f.left, ops=[ast.Lt() if f.pos else ast.GtE()], comparators=[f.right]))
+    return out
+
+
+def _required_by_callers(ctx: Ctx, fi: FuncInfo) -> list[ast.AST]:
+    """
+    Conditions over fi's parameters that hold at EVERY call of fi in the repository (a guard that moved from the verifier into its
+    caller is still required before a proof is accepted): the facts that dominate each call site, with the caller's argument
+    expressions replaced by the parameters they are bound to.  Empty when there is no call site, one cannot be read, or a
+    caller passes something other than plain positional / keyword arguments.
+    """
+    params = fi.params()[1:] if fi.cls is not None else fi.params()
+    per_site: list[list[ast.AST]] = []
+    try:
+        sites = list(ctx.repo.callers_of_name(fi.name))
+    except Exception:  # noqa: BLE001
+        return []
+    for site in sites:
+        caller, call = (site[1], site[2]) if len(site) == 3 else site
+        if len(call.args) + len(call.keywords) != len(params) or any(isinstance(a, ast.Starred) for a in call.args) or any(k.arg is None for k in call.keywords):
+            continue                                          # another `check` (sub-proofs take 3 / 6 arguments)
+        if caller is None:
+            return []
+        try:
+            targets = ctx.repo.resolve_call(caller, call)
+        except Exception:  # noqa: BLE001
+            targets = []
+        if targets and not any(t.node is fi.node for t in targets):
+            continue
+        fr = _Frame(caller)
+        bound = dict(zip(params, call.args))
+        bound.update({k.arg: k.value for k in call.keywords})
+        if set(bound) != set(params):
+            return []
+        texts = {}
+        for pname, a in bound.items():
+            texts.setdefault(_ctext(fr, a), pname)
+            texts.setdefault(norm(a), pname)
+        try:
+            facts = _site_facts(ctx, fr, call)
+        except AnalysisError:
+            return []
+        conds = []
+        for f in facts:
+            le = _rename_texts(f.left, texts)
+            ri = _rename_texts(f.right, texts) if f.right is not None else None
+            if (_raw_names(le) | (_raw_names(ri) if ri is not None else set())) - {"min", "max", "abs", "bool", "int", "len"} <= set(params):   # speaks about the arguments only
+                conds.extend(_fact_conditions([Fact(f.op, le, ri, f.pos, f.atom)]))
+        per_site.append(conds)
+    if not per_site:
+        return []
+    common = per_site[0]
+    for other in per_site[1:]:
+        texts2 = {norm(x) for x in other}
+        common = [x for x in common if norm(x) in texts2]
+    return common
+
+
+def _rename_texts(e: ast.AST, texts: dict[str, str]) -> ast.AST:
+    """copy of e with every sub-expression whose text is a key of `texts` replaced by the name it maps to (outermost match first)"""
+    if isinstance(e, list):
+        return [_rename_texts(x, texts) for x in e]
+    if not isinstance(e, ast.AST):
+        return e
+    if isinstance(e, ast.expr):
+        try:
+            t = norm(e)
+        except Exception:  # noqa: BLE001
+            t = None
+        if t in texts:
+            return ast.Name(id=texts[t], ctx=ast.Load())
+    new = e.__class__()
+    for f in e._fields:
+        if hasattr(e, f):
+            setattr(new, f, _rename_texts(getattr(e, f), texts))
+    return new
+
+
 def rule_range_binding(ctx: Ctx) -> None:
     """
     PengBaoPublicData.check(a, b, s, t, x, y, u, v) accepts a range proof only if ALL verification equations hold.  The
@@ -3484,20 +4714,16 @@ def rule_range_binding(ctx: Ctx) -> None:
     paths = _paths(fi)
     # the proof is accepted on the paths that can return something truthy: on each of them the path condition (early `return False`
     # guards, decision helpers) and the returned conjunction together are what was required
-    accepting = [(st, ret) for st, ret in paths if not (isinstance(ret, ast.Constant) and not ret.value)]
+    paths = [(st, _simp(ret)) for st, ret in paths]
+    accepting = [(st, ret) for st, ret in paths if not (isinstance(ret, ast.Constant) and not ret.value) and _decide(ret, _known(st.conds)) is not False]
     if not accepting or len(accepting) > 16:
         raise AnalysisError(f"undecided: {fi.qualname}: {len(accepting)} accepting return paths")
+    at_call = _required_by_callers(ctx, fi)                  # conditions every caller establishes before it calls check()
 
     def required(st, ret) -> list[ast.AST]:
-        out = []
+        out = list(at_call)
         for e, pol in st.conds:
-            for f in _atoms_with_polarity(e, pol):
-                if f.op == "truthy" and f.pos:
-                    out.extend(_and_parts(f.left))
-                elif f.op == "eq" and f.pos and f.right is not None:
-                    out.append(ast.Compare(left=f.left, ops=[ast.Eq()], comparators=[f.right]))
-                elif f.op == "lt" and f.right is not None:
-                    out.append(ast.Compare(left=f.left, ops=[ast.Lt() if f.pos else ast.GtE()], comparators=[f.right]))
+            out.extend(_fact_conditions(_atoms_with_polarity(_simp(e), pol)))
         return out + _and_parts(ret)
 
     per_path = []
@@ -3595,9 +4821,12 @@ def rule_response_consumed(ctx: Ctx) -> None:
     frames = _frames(ctx, fi)
 
     def is_pending_id(fr: _Frame, call: ast.Call) -> bool:
-        txt = " ".join(_ctext(fr, a.value if isinstance(a, ast.Starred) else a) for a in call.args)
+        canon_args = [_canon(fr, a.value if isinstance(a, ast.Starred) else a) for a in call.args]
+        txt = " ".join(norm(a) for a in canon_args)
         if "'proving-hash'" in txt and want_hash in txt:
             return True
+        if want_hash in txt and any(_mentions_const(ctx, fr.fi, a, "proving-hash") for a in canon_args):
+            return True                                       # the prefix comes from a constant / table / enum value
         # pop(entry.prefix, entry.number) of the entry that was looked up under the pending id
         if len(call.args) == 2 and all(isinstance(strip_cast(a), ast.Attribute) for a in call.args):
             a0, a1 = (strip_cast(a) for a in call.args)
@@ -3684,12 +4913,27 @@ def rule_response_consumed(ctx: Ctx) -> None:
             return consumed_at(fr.caller, fr.call)
         return False
 
-    uses = [(fr, c) for fr in frames for c in calls(fr.fi) if call_name(c) in ("process_challenge_response", "process_honesty_challenge")]
+    procs = ("process_challenge_response", "process_honesty_challenge")
+
+    def feeds(fr: _Frame, c: ast.Call) -> str | None:
+        """name of the verifier method a call hands the response to: directly, through a callable picked from a table / conditional, or by methodcaller"""
+        if call_name(c) in procs:
+            return call_name(c)
+        for f in _callee_exprs(fr.fi, c.func):
+            f = strip_cast(f)
+            if isinstance(f, ast.Attribute) and f.attr in procs:
+                return f.attr
+            if isinstance(f, ast.Call) and _libfn(f.func) == "methodcaller" and f.args and const_value(f.args[0]) in procs:
+                return const_value(f.args[0])
+            if isinstance(f, ast.Call) and _libfn(f.func) == "partial" and f.args and isinstance(strip_cast(f.args[0]), ast.Attribute) and strip_cast(f.args[0]).attr in procs:
+                return strip_cast(f.args[0]).attr
+        return None
+    uses = [(fr, c) for fr in frames for c in calls(fr.fi) if feeds(fr, c) is not None]
     ctx.anchor(uses, "on_challenge_response feeds the response into process_challenge_response / process_honesty_challenge")
     for fr, u in uses:
         ok = consumed_at(fr, u)
-        ctx.check(ok, "response-consumed", fi, enclosing_stmt(u), f"{call_name(u)}: the pending challenge is popped on every path that processes the response",
-                  f"on_challenge_response hands the response to {call_name(u)} on a path that does not pop the PendingChallengeCache entry "
+        ctx.check(ok, "response-consumed", fi, enclosing_stmt(u), f"{feeds(fr, u)}: the pending challenge is popped on every path that processes the response",
+                  f"on_challenge_response hands the response to {feeds(fr, u)} on a path that does not pop the PendingChallengeCache entry "
                   f"('proving-hash', {payload}.challenge_hash) - not before it and not on every way out (early return): a duplicated / replayed response is "
                   "counted again in the relativity map, the bit-pair profile over-counts and the honest prover's true value scores 0")
     _check_answered_challenge(ctx, fi, frames, want_hash)
@@ -3896,6 +5140,9 @@ WITNESSES = [
      "old": "        xn = x1 - q * x2", "new": "        xn = x1 + q * x2"},
     {"name": "equality ignores x coefficient", "file": VP, "rule": "ring-laws",
      "old": "return all([divd.a == divd.aC, divd.b == divd.bC, divd.c == divd.cC])", "new": "return all([divd.a == divd.aC, divd.c == divd.cC])"},
+    {"name": "wp_compress shortcut for a denominator without x term forgets its scalar part", "file": VP, "rule": "ring-laws",
+     "old": "        assert self.cC == 0\n        normalized = self.normalize()\n        return normalized.wp_nominator() * normalized.wp_denom_inverse()",
+     "new": "        assert self.cC == 0\n        if self.bC == 0:\n            return self.wp_nominator()\n        normalized = self.normalize()\n        return normalized.wp_nominator() * normalized.wp_denom_inverse()"},
     {"name": "private key drops a field", "file": "ipv8/attestation/wallet/primitives/structs.py", "rule": "codec-arity",
      "old": "        return super().serialize() + ipack(self.n) + ipack(self.t1)", "new": "        return super().serialize() + ipack(self.n)"},
     {"name": "bitpair field order swapped", "file": "ipv8/attestation/wallet/bonehexact/structs.py", "rule": "codec-arity",
@@ -3948,6 +5195,12 @@ WITNESSES = [
      "new": "        if unpacked in (0, 1, 2):\n            process_challenge_response(aggregate, unpacked)\n        return aggregate\n"},
     {"name": "an answer is counted twice", "file": "ipv8/attestation/wallet/bonehexact/attestation.py", "rule": "protocol-shape",
      "old": "    relativity_map[response] += 1\n", "new": "    relativity_map[response] += 2\n"},
+    {"name": "decode memoises g^t1 per id(privkey)", "file": "ipv8/attestation/wallet/primitives/boneh.py", "rule": "protocol-shape",
+     "old": "def decode(privkey: BonehPrivateKey, msgspace: list[int], c: FP2Value) -> int | None:\n    \"\"\"\n    Decode a ciphertext c given a private key and the possible source messages.\n"
+            "    \"\"\"\n    d = c.intpow(privkey.t1)\n    t = privkey.g.intpow(privkey.t1)\n",
+     "new": "_decode_bases: dict[int, FP2Value] = {}\n\n\ndef decode(privkey: BonehPrivateKey, msgspace: list[int], c: FP2Value) -> int | None:\n    \"\"\"\n"
+            "    Decode a ciphertext c given a private key and the possible source messages.\n    \"\"\"\n    d = c.intpow(privkey.t1)\n"
+            "    t = _decode_bases.get(id(privkey))\n    if t is None:\n        t = _decode_bases[id(privkey)] = privkey.g.intpow(privkey.t1)\n"},
     {"name": "range certainty starts from True", "file": "ipv8/attestation/wallet/pengbaorange/algorithm.py", "rule": "protocol-shape",
      "old": "        in_range = len(aggregate) > 1\n", "new": "        in_range = True\n"},
     {"name": "range certainty accepts when any response verified", "file": "ipv8/attestation/wallet/pengbaorange/algorithm.py", "rule": "protocol-shape",
